@@ -63,6 +63,13 @@ module Coq__1 = struct
 end
 include Coq__1
 
+(** val mul : nat -> nat -> nat **)
+
+let rec mul n0 m =
+  match n0 with
+  | O -> O
+  | S p -> add m (mul p m)
+
 (** val sub : nat -> nat -> nat **)
 
 let rec sub n0 m =
@@ -588,11 +595,26 @@ let rec fold_right f a0 = function
 | [] -> a0
 | b :: t -> f b (fold_right f a0 t)
 
+(** val existsb : ('a1 -> bool) -> 'a1 list -> bool **)
+
+let rec existsb f = function
+| [] -> false
+| a :: l0 -> (||) (f a) (existsb f l0)
+
 (** val forallb : ('a1 -> bool) -> 'a1 list -> bool **)
 
 let rec forallb f = function
 | [] -> true
 | a :: l0 -> (&&) (f a) (forallb f l0)
+
+(** val firstn : nat -> 'a1 list -> 'a1 list **)
+
+let rec firstn n0 l =
+  match n0 with
+  | O -> []
+  | S n1 -> (match l with
+             | [] -> []
+             | a :: l0 -> a :: (firstn n1 l0))
 
 (** val repeat : 'a1 -> nat -> 'a1 list **)
 
@@ -946,6 +968,13 @@ type err =
 type 'a result =
 | OK of 'a
 | Error of err
+
+(** val bind : 'a1 result -> ('a1 -> 'a2 result) -> 'a2 result **)
+
+let bind r f =
+  match r with
+  | OK a -> f a
+  | Error e -> Error e
 
 (** val err_name : err -> char list **)
 
@@ -7863,6 +7892,4486 @@ let run_run = function
                | None -> bad_input)
             | _ :: _ -> bad_input))))
 
+type kind =
+| KVal of char list option * nat
+| KEnumVal
+| KColl of char list * nat * char list * nat
+| KSeq of kind
+| KTuple of kind list
+| KDict of kind list * bool
+| KTree
+| KNs of char list list
+| KEnum of char list list
+
+type expr =
+| EConst of char list
+| EName of char list
+| EAttr of expr * char list
+| ECall of expr * expr list * nat
+| ELambda of char list list * expr
+| EBinOp of char list * expr * expr
+| EUnOp of char list * expr
+| ECompare of char list list * expr * expr list
+| EBoolOp of char list * expr list
+| EIfExp of expr * expr * expr
+| ESubscript of expr * expr
+| ETuple of expr list
+| EList of expr list
+| EDict of bool * bool * expr list
+| ELiteral of bool * nat
+| EOther of char list * expr list
+| ECppCode of bool * char list * nat * char list * nat * nat
+   * char list option
+| EFunAst of char list * char list
+| EKind of kind
+
+type minfo = { mi_coll : bool; mi_ty : char list; mi_pd : nat;
+               mi_ety : char list; mi_epd : nat }
+
+type registry = { r_methods : ((char list * char list) * minfo) list;
+                  r_ns : char list list list;
+                  r_enums : (char list list * char list list) list }
+
+(** val assoc2 :
+    (char list * char list) -> ((char list * char list) * 'a1) list -> 'a1
+    option **)
+
+let rec assoc2 k = function
+| [] -> None
+| p :: r ->
+  let (p0, v) = p in
+  let (a, b) = p0 in
+  if (&&) (eqb0 a (fst k)) (eqb0 b (snd k)) then Some v else assoc2 k r
+
+(** val path_eqb : char list list -> char list list -> bool **)
+
+let path_eqb =
+  list_str_eqb
+
+(** val mem_path : char list list -> char list list list -> bool **)
+
+let rec mem_path p = function
+| [] -> false
+| q0 :: r -> if path_eqb p q0 then true else mem_path p r
+
+(** val assoc_path :
+    char list list -> (char list list * 'a1) list -> 'a1 option **)
+
+let rec assoc_path p = function
+| [] -> None
+| p0 :: r ->
+  let (q0, v) = p0 in if path_eqb p q0 then Some v else assoc_path p r
+
+type frames0 = (char list * expr) list list
+
+(** val frame_lookup : char list -> (char list * expr) list -> expr option **)
+
+let rec frame_lookup x = function
+| [] -> None
+| p :: r -> let (y, e) = p in if eqb0 x y then Some e else frame_lookup x r
+
+(** val lookup_name : char list -> frames0 -> expr option **)
+
+let rec lookup_name x = function
+| [] -> None
+| f :: r ->
+  (match frame_lookup x f with
+   | Some e -> Some e
+   | None -> lookup_name x r)
+
+(** val zip_args : char list list -> expr list -> (char list * expr) list **)
+
+let rec zip_args ps args =
+  match ps with
+  | [] -> []
+  | p :: ps' ->
+    (match args with
+     | [] -> []
+     | a :: as' -> (p, a) :: (zip_args ps' as'))
+
+(** val as_cpp : kind -> unit result **)
+
+let as_cpp = function
+| KVal (_, _) -> OK ()
+| KEnumVal -> OK ()
+| KColl (_, _, _, _) -> OK ()
+| KSeq _ -> Error ErrRuntime
+| KTree -> OK ()
+| _ -> Error ErrAttr
+
+(** val type_name : kind -> char list result **)
+
+let type_name = function
+| KVal (ty, _) -> (match ty with
+                   | Some t -> OK t
+                   | None -> Error ErrRuntime)
+| KEnumVal -> OK ('e'::('n'::('u'::('m'::[]))))
+| KColl (c, _, _, _) -> OK c
+| KSeq _ ->
+  OK
+    ('s'::('t'::('d'::(':'::(':'::('v'::('e'::('c'::('t'::('o'::('r'::[])))))))))))
+| KTree ->
+  OK ('t'::('t'::('r'::('e'::('e'::('t'::('f'::('i'::('l'::('e'::[]))))))))))
+| _ -> Error ErrAttr
+
+(** val is_num_type : char list -> bool **)
+
+let is_num_type t =
+  (||)
+    ((||) (eqb0 t ('i'::('n'::('t'::[]))))
+      (eqb0 t ('f'::('l'::('o'::('a'::('t'::[])))))))
+    (eqb0 t ('d'::('o'::('u'::('b'::('l'::('e'::[])))))))
+
+(** val prio : char list -> nat **)
+
+let prio t =
+  if eqb0 t ('i'::('n'::('t'::[])))
+  then O
+  else if eqb0 t ('f'::('l'::('o'::('a'::('t'::[]))))) then S O else S (S O)
+
+(** val most_accurate : char list -> char list -> char list result **)
+
+let most_accurate a b =
+  if (&&) (is_num_type a) (is_num_type b)
+  then OK (if Nat.ltb (prio a) (prio b) then b else a)
+  else Error ErrAssert
+
+(** val determine_type_mf : registry -> kind -> char list -> kind result **)
+
+let determine_type_mf g recv m =
+  match type_name recv with
+  | OK t ->
+    (match assoc2 (t, m) g.r_methods with
+     | Some i ->
+       OK
+         (if i.mi_coll
+          then KColl (i.mi_ty, i.mi_pd, i.mi_ety, i.mi_epd)
+          else KVal ((Some i.mi_ty), i.mi_pd))
+     | None ->
+       if is_num_type t
+       then Error ErrTranslation
+       else OK (KVal ((Some ('d'::('o'::('u'::('b'::('l'::('e'::[]))))))), O)))
+  | Error e -> Error e
+
+(** val is_cpp_value : kind -> bool **)
+
+let is_cpp_value = function
+| KVal (_, _) -> true
+| KEnumVal -> true
+| KColl (_, _, _, _) -> true
+| KTree -> true
+| _ -> false
+
+(** val seq_tree_ok : kind -> bool **)
+
+let rec seq_tree_ok = function
+| KVal (ty, _) -> (match ty with
+                   | Some _ -> true
+                   | None -> false)
+| KEnumVal -> true
+| KColl (_, _, _, _) -> true
+| KSeq v -> seq_tree_ok v
+| KTree -> true
+| _ -> false
+
+(** val ttree_type_ok : kind -> unit result **)
+
+let ttree_type_ok = function
+| KVal (ty, _) -> (match ty with
+                   | Some _ -> OK ()
+                   | None -> Error ErrValue)
+| KEnumVal -> OK ()
+| KColl (_, _, _, _) -> OK ()
+| KSeq v ->
+  (match v with
+   | KTuple _ -> Error ErrRuntime
+   | KDict (_, _) -> Error ErrRuntime
+   | KNs _ -> Error ErrRuntime
+   | KEnum _ -> Error ErrRuntime
+   | _ -> if seq_tree_ok v then OK () else Error ErrRuntime)
+| KTree -> OK ()
+| _ -> Error ErrAttr
+
+(** val all_ok : ('a1 -> unit result) -> 'a1 list -> unit result **)
+
+let rec all_ok f = function
+| [] -> OK ()
+| x :: r -> bind (f x) (fun _ -> all_ok f r)
+
+(** val known_binop : char list -> bool **)
+
+let known_binop op =
+  (||)
+    ((||)
+      ((||)
+        ((||) (eqb0 op ('A'::('d'::('d'::[]))))
+          (eqb0 op ('S'::('u'::('b'::[])))))
+        (eqb0 op ('M'::('u'::('l'::('t'::[]))))))
+      (eqb0 op ('D'::('i'::('v'::[]))))) (eqb0 op ('M'::('o'::('d'::[]))))
+
+(** val known_unop : char list -> bool **)
+
+let known_unop op =
+  (||)
+    ((||) (eqb0 op ('U'::('A'::('d'::('d'::[])))))
+      (eqb0 op ('U'::('S'::('u'::('b'::[]))))))
+    (eqb0 op ('N'::('o'::('t'::[]))))
+
+(** val known_cmp : char list -> bool **)
+
+let known_cmp op =
+  mem_str op
+    (('L'::('t'::[])) :: (('L'::('t'::('E'::[]))) :: (('G'::('t'::[])) :: (('G'::('t'::('E'::[]))) :: (('E'::('q'::[])) :: (('N'::('o'::('t'::('E'::('q'::[]))))) :: []))))))
+
+(** val event_kind : kind **)
+
+let event_kind =
+  KSeq (KVal (None, O))
+
+(** val result_ttree : kind -> nat -> kind result **)
+
+let result_ttree seq ncols =
+  match seq with
+  | KSeq v ->
+    let vals =
+      match v with
+      | KVal (_, _) -> v :: []
+      | KTuple ks -> ks
+      | _ -> v :: []
+    in
+    if negb (Nat.eqb (length vals) ncols)
+    then Error ErrRuntime
+    else bind (all_ok ttree_type_ok vals) (fun _ ->
+           if existsb (fun k ->
+                match k with
+                | KColl (_, _, _, _) -> true
+                | _ -> false) vals
+           then Error ErrAssert
+           else OK KTree)
+  | _ -> Error ErrValue
+
+(** val visit : registry -> nat -> frames0 -> expr -> kind result **)
+
+let rec visit g fuel fs e =
+  match fuel with
+  | O -> Error ErrOutOfFuel
+  | S f ->
+    let vis = visit g f in
+    let as_sequence = fun fs0 e0 ->
+      bind (vis fs0 e0) (fun k ->
+        match k with
+        | KVal (_, _) -> Error ErrValue
+        | KEnumVal -> Error ErrValue
+        | KColl (_, _, ety, epd) -> OK (KSeq (KVal ((Some ety), epd)))
+        | KSeq _ -> OK k
+        | _ -> Error ErrValue)
+    in
+    let vis_cpp = fun fs0 e0 ->
+      bind (vis fs0 e0) (fun k -> bind (as_cpp k) (fun _ -> OK k))
+    in
+    let vis_all_cpp =
+      let rec go = function
+      | [] -> OK ()
+      | a :: r -> bind (vis_cpp fs a) (fun _ -> go r)
+      in go
+    in
+    let vis_list =
+      let rec go = function
+      | [] -> OK []
+      | a :: r ->
+        bind (vis fs a) (fun k -> bind (go r) (fun ks -> OK (k :: ks)))
+      in go
+    in
+    let generic =
+      let rec go = function
+      | [] -> OK ()
+      | a :: r ->
+        (match a with
+         | ELambda (_, _) -> go r
+         | ELiteral (_, _) -> go r
+         | EOther (_, _) -> go r
+         | ECppCode (_, _, _, _, _, _, _) -> go r
+         | EFunAst (_, _) -> go r
+         | _ -> bind (vis fs a) (fun _ -> go r))
+      in go
+    in
+    (match e with
+     | EConst tag ->
+       if eqb0 tag ('s'::('t'::('r'::[])))
+       then OK (KVal ((Some ('s'::('t'::('r'::('i'::('n'::('g'::[]))))))), O))
+       else if eqb0 tag ('i'::('n'::('t'::[])))
+            then OK (KVal ((Some ('i'::('n'::('t'::[])))), O))
+            else if eqb0 tag ('f'::('l'::('o'::('a'::('t'::[])))))
+                 then OK (KVal ((Some
+                        ('d'::('o'::('u'::('b'::('l'::('e'::[]))))))), O))
+                 else if eqb0 tag ('b'::('o'::('o'::('l'::[]))))
+                      then OK (KVal ((Some ('b'::('o'::('o'::('l'::[]))))),
+                             O))
+                      else Error ErrValue
+     | EName x ->
+       (match lookup_name x fs with
+        | Some e' -> vis fs e'
+        | None ->
+          if mem_path (x :: []) g.r_ns
+          then OK (KNs (x :: []))
+          else Error ErrRuntime)
+     | EAttr (o, a) ->
+       bind (vis fs o) (fun k ->
+         match k with
+         | KVal (_, _) ->
+           bind (determine_type_mf g k a) (fun r ->
+             match r with
+             | KColl (c, pd, _, _) -> OK (KVal ((Some c), pd))
+             | _ -> OK r)
+         | KEnumVal -> Error ErrValue
+         | KColl (_, _, _, _) ->
+           bind (determine_type_mf g k a) (fun r ->
+             match r with
+             | KColl (c, pd, _, _) -> OK (KVal ((Some c), pd))
+             | _ -> OK r)
+         | KTree ->
+           bind (determine_type_mf g k a) (fun r ->
+             match r with
+             | KColl (c, pd, _, _) -> OK (KVal ((Some c), pd))
+             | _ -> OK r)
+         | KNs p ->
+           if mem_path (app p (a :: [])) g.r_ns
+           then OK (KNs (app p (a :: [])))
+           else (match assoc_path (app p (a :: [])) g.r_enums with
+                 | Some _ -> OK (KEnum (app p (a :: [])))
+                 | None -> Error ErrRuntime)
+         | KEnum p ->
+           (match assoc_path p g.r_enums with
+            | Some vs ->
+              if mem_str a vs then OK KEnumVal else Error ErrRuntime
+            | None -> Error ErrRuntime)
+         | _ -> Error ErrRuntime)
+     | ECall (fn, args, _) ->
+       (match fn with
+        | EName g0 ->
+          if eqb0 g0 ('S'::('e'::('l'::('e'::('c'::('t'::[]))))))
+          then (match args with
+                | [] -> Error ErrAssert
+                | src :: l ->
+                  (match l with
+                   | [] -> Error ErrAssert
+                   | e0 :: l0 ->
+                     (match e0 with
+                      | ELambda (ps, body) ->
+                        (match l0 with
+                         | [] ->
+                           bind (as_sequence fs src) (fun s ->
+                             match s with
+                             | KSeq v ->
+                               bind
+                                 (vis fs (ECall ((ELambda (ps, body)),
+                                   ((EKind v) :: []), O))) (fun k -> OK (KSeq
+                                 k))
+                             | _ -> Error ErrValue)
+                         | _ :: _ -> Error ErrAssert)
+                      | _ -> Error ErrAssert)))
+          else if eqb0 g0
+                    ('S'::('e'::('l'::('e'::('c'::('t'::('M'::('a'::('n'::('y'::[]))))))))))
+               then (match args with
+                     | [] -> Error ErrAssert
+                     | src :: l ->
+                       (match l with
+                        | [] -> Error ErrAssert
+                        | e0 :: l0 ->
+                          (match e0 with
+                           | ELambda (ps, body) ->
+                             (match l0 with
+                              | [] ->
+                                bind (as_sequence fs src) (fun s ->
+                                  match s with
+                                  | KSeq v ->
+                                    as_sequence fs (ECall ((ELambda (ps,
+                                      body)), ((EKind v) :: []), O))
+                                  | _ -> Error ErrValue)
+                              | _ :: _ -> Error ErrAssert)
+                           | _ -> Error ErrAssert)))
+               else if eqb0 g0 ('W'::('h'::('e'::('r'::('e'::[])))))
+                    then (match args with
+                          | [] -> Error ErrAssert
+                          | src :: l ->
+                            (match l with
+                             | [] -> Error ErrAssert
+                             | e0 :: l0 ->
+                               (match e0 with
+                                | ELambda (ps, body) ->
+                                  (match l0 with
+                                   | [] ->
+                                     bind (as_sequence fs src) (fun s ->
+                                       match s with
+                                       | KSeq v ->
+                                         bind
+                                           (vis_cpp fs (ECall ((ELambda (ps,
+                                             body)), ((EKind v) :: []), O)))
+                                           (fun _ ->
+                                           match v with
+                                           | KSeq _ -> Error ErrRuntime
+                                           | _ -> OK (KSeq v))
+                                       | _ -> Error ErrValue)
+                                   | _ :: _ -> Error ErrAssert)
+                                | _ -> Error ErrAssert)))
+                    else if eqb0 g0 ('F'::('i'::('r'::('s'::('t'::[])))))
+                         then (match args with
+                               | [] -> Error ErrAssert
+                               | src :: l ->
+                                 (match l with
+                                  | [] ->
+                                    bind (as_sequence fs src) (fun s ->
+                                      match s with
+                                      | KSeq v ->
+                                        (match v with
+                                         | KVal (ty, _) ->
+                                           (match ty with
+                                            | Some _ -> OK v
+                                            | None -> Error ErrNotImpl)
+                                         | _ -> OK v)
+                                      | _ -> Error ErrValue)
+                                  | _ :: _ -> Error ErrAssert))
+                         else if eqb0 g0
+                                   ('A'::('g'::('g'::('r'::('e'::('g'::('a'::('t'::('e'::[])))))))))
+                              then (match args with
+                                    | [] -> Error ErrRuntime
+                                    | src :: l ->
+                                      (match l with
+                                       | [] -> Error ErrRuntime
+                                       | init :: l0 ->
+                                         (match l0 with
+                                          | [] -> Error ErrNotImpl
+                                          | lam :: l1 ->
+                                            (match l1 with
+                                             | [] ->
+                                               (match src with
+                                                | ELambda (_, _) ->
+                                                  Error ErrNotImpl
+                                                | _ ->
+                                                  bind (vis fs init)
+                                                    (fun ki ->
+                                                    match lam with
+                                                    | ELambda (ps, body) ->
+                                                      bind
+                                                        (as_sequence fs src)
+                                                        (fun s ->
+                                                        bind (type_name ki)
+                                                          (fun ti ->
+                                                          if negb
+                                                               (is_num_type
+                                                                 ti)
+                                                          then Error ErrValue
+                                                          else (match s with
+                                                                | KSeq v ->
+                                                                  bind
+                                                                    (vis fs
+                                                                    (ECall
+                                                                    ((ELambda
+                                                                    (ps,
+                                                                    body)),
+                                                                    ((EKind
+                                                                    (KVal
+                                                                    ((Some
+                                                                    ti),
+                                                                    O))) :: ((EKind
+                                                                    v) :: [])),
+                                                                    O)))
+                                                                    (fun ku ->
+                                                                    bind
+                                                                    (type_name
+                                                                    ku)
+                                                                    (fun tu ->
+                                                                    bind
+                                                                    (as_cpp
+                                                                    ku)
+                                                                    (fun _ ->
+                                                                    if 
+                                                                    eqb0 tu ti
+                                                                    then 
+                                                                    OK (KVal
+                                                                    ((Some
+                                                                    ti), O))
+                                                                    else 
+                                                                    bind
+                                                                    (most_accurate
+                                                                    ti tu)
+                                                                    (fun t ->
+                                                                    OK (KVal
+                                                                    ((Some
+                                                                    t), O))))))
+                                                                | _ ->
+                                                                  Error
+                                                                    ErrValue)))
+                                                    | _ -> Error ErrAssert))
+                                             | _ :: _ -> Error ErrRuntime))))
+                              else if eqb0 g0
+                                        ('R'::('a'::('n'::('g'::('e'::[])))))
+                                   then (match args with
+                                         | [] -> Error ErrAssert
+                                         | lo :: l ->
+                                           (match l with
+                                            | [] -> Error ErrAssert
+                                            | hi :: l0 ->
+                                              (match l0 with
+                                               | [] ->
+                                                 bind (vis_cpp fs lo)
+                                                   (fun _ ->
+                                                   bind (vis_cpp fs hi)
+                                                     (fun _ -> OK (KSeq (KVal
+                                                     ((Some
+                                                     ('i'::('n'::('t'::[])))),
+                                                     O)))))
+                                               | _ :: _ -> Error ErrAssert)))
+                                   else if eqb0 g0
+                                             ('E'::('v'::('e'::('n'::('t'::('D'::('a'::('t'::('a'::('s'::('e'::('t'::[]))))))))))))
+                                        then OK event_kind
+                                        else if eqb0 g0
+                                                  ('R'::('e'::('s'::('u'::('l'::('t'::('T'::('T'::('r'::('e'::('e'::[])))))))))))
+                                             then (match args with
+                                                   | [] -> Error ErrAssert
+                                                   | src :: l ->
+                                                     (match l with
+                                                      | [] -> Error ErrAssert
+                                                      | e0 :: l0 ->
+                                                        (match e0 with
+                                                         | EAttr (_, _) ->
+                                                           (match l0 with
+                                                            | [] ->
+                                                              Error ErrAssert
+                                                            | _ :: l1 ->
+                                                              (match l1 with
+                                                               | [] ->
+                                                                 Error
+                                                                   ErrAssert
+                                                               | _ :: l2 ->
+                                                                 (match l2 with
+                                                                  | [] ->
+                                                                    Error
+                                                                    ErrValue
+                                                                  | _ :: _ ->
+                                                                    Error
+                                                                    ErrAssert)))
+                                                         | ECompare (
+                                                             _, _, _) ->
+                                                           (match l0 with
+                                                            | [] ->
+                                                              Error ErrAssert
+                                                            | _ :: l2 ->
+                                                              (match l2 with
+                                                               | [] ->
+                                                                 Error
+                                                                   ErrAssert
+                                                               | _ :: l3 ->
+                                                                 (match l3 with
+                                                                  | [] ->
+                                                                    Error
+                                                                    ErrValue
+                                                                  | _ :: _ ->
+                                                                    Error
+                                                                    ErrAssert)))
+                                                         | ELiteral (_, n0) ->
+                                                           (match l0 with
+                                                            | [] ->
+                                                              Error ErrAssert
+                                                            | e1 :: l1 ->
+                                                              (match e1 with
+                                                               | EAttr (
+                                                                   _, _) ->
+                                                                 (match l1 with
+                                                                  | [] ->
+                                                                    Error
+                                                                    ErrAssert
+                                                                  | _ :: l2 ->
+                                                                    (match l2 with
+                                                                    | [] ->
+                                                                    Error
+                                                                    ErrValue
+                                                                    | _ :: _ ->
+                                                                    Error
+                                                                    ErrAssert))
+                                                               | ECompare (
+                                                                   _, _, _) ->
+                                                                 (match l1 with
+                                                                  | [] ->
+                                                                    Error
+                                                                    ErrAssert
+                                                                  | _ :: l3 ->
+                                                                    (match l3 with
+                                                                    | [] ->
+                                                                    Error
+                                                                    ErrValue
+                                                                    | _ :: _ ->
+                                                                    Error
+                                                                    ErrAssert))
+                                                               | ELiteral (
+                                                                   is_str0, _) ->
+                                                                 if is_str0
+                                                                 then 
+                                                                   (match l1 with
+                                                                    | [] ->
+                                                                    Error
+                                                                    ErrAssert
+                                                                    | _ :: l2 ->
+                                                                    (match l2 with
+                                                                    | [] ->
+                                                                    bind
+                                                                    (as_sequence
+                                                                    fs src)
+                                                                    (fun s ->
+                                                                    result_ttree
+                                                                    s n0)
+                                                                    | _ :: _ ->
+                                                                    Error
+                                                                    ErrAssert))
+                                                                 else 
+                                                                   (match l1 with
+                                                                    | [] ->
+                                                                    Error
+                                                                    ErrAssert
+                                                                    | _ :: l2 ->
+                                                                    (match l2 with
+                                                                    | [] ->
+                                                                    Error
+                                                                    ErrValue
+                                                                    | _ :: _ ->
+                                                                    Error
+                                                                    ErrAssert))
+                                                               | _ ->
+                                                                 (match l1 with
+                                                                  | [] ->
+                                                                    Error
+                                                                    ErrAssert
+                                                                  | _ :: l2 ->
+                                                                    (match l2 with
+                                                                    | [] ->
+                                                                    Error
+                                                                    ErrValue
+                                                                    | _ :: _ ->
+                                                                    Error
+                                                                    ErrAssert))))
+                                                         | _ ->
+                                                           (match l0 with
+                                                            | [] ->
+                                                              Error ErrAssert
+                                                            | _ :: l1 ->
+                                                              (match l1 with
+                                                               | [] ->
+                                                                 Error
+                                                                   ErrAssert
+                                                               | _ :: l2 ->
+                                                                 (match l2 with
+                                                                  | [] ->
+                                                                    Error
+                                                                    ErrValue
+                                                                  | _ :: _ ->
+                                                                    Error
+                                                                    ErrAssert))))))
+                                             else bind (generic args)
+                                                    (fun _ -> Error
+                                                    ErrRuntime)
+        | EAttr (recv, m) ->
+          bind (vis fs recv) (fun k ->
+            if negb (is_cpp_value k)
+            then Error ErrValue
+            else bind (determine_type_mf g k m) (fun r ->
+                   bind (vis_all_cpp args) (fun _ -> OK r)))
+        | ELambda (ps, body) -> vis ((zip_args ps args) :: fs) body
+        | ECppCode (is_coll, ty, pd, ety, epd, nparams, inst) ->
+          bind
+            (match inst with
+             | Some x ->
+               (match lookup_name x fs with
+                | Some e0 ->
+                  (match e0 with
+                   | EConst _ -> Error ErrAttr
+                   | EName _ -> Error ErrAttr
+                   | EAttr (_, _) -> Error ErrAttr
+                   | ECall (_, _, _) -> Error ErrAttr
+                   | ELambda (_, _) -> Error ErrAttr
+                   | EBinOp (_, _, _) -> Error ErrAttr
+                   | EUnOp (_, _) -> Error ErrAttr
+                   | ECompare (_, _, _) -> Error ErrAttr
+                   | EBoolOp (_, _) -> Error ErrAttr
+                   | EIfExp (_, _, _) -> Error ErrAttr
+                   | ESubscript (_, _) -> Error ErrAttr
+                   | ETuple _ -> Error ErrAttr
+                   | EList _ -> Error ErrAttr
+                   | EDict (_, _, _) -> Error ErrAttr
+                   | ELiteral (_, _) -> Error ErrAttr
+                   | EOther (_, _) -> Error ErrAttr
+                   | ECppCode (_, _, _, _, _, _, _) -> Error ErrAttr
+                   | EFunAst (_, _) -> Error ErrAttr
+                   | EKind k -> as_cpp k)
+                | None -> Error ErrAttr)
+             | None -> OK ()) (fun _ ->
+            bind (vis_all_cpp (firstn nparams args)) (fun _ -> OK
+              (if is_coll
+               then KColl (ty, pd, ety, epd)
+               else KVal ((Some ty), pd))))
+        | EFunAst (_, ret) ->
+          bind (vis_list args) (fun ks ->
+            if forallb is_cpp_value ks
+            then OK (KVal ((Some ret), O))
+            else Error ErrRuntime)
+        | _ -> bind (generic (fn :: args)) (fun _ -> Error ErrRuntime))
+     | EBinOp (op, a, b) ->
+       if known_binop op
+       then bind (vis fs a) (fun ka ->
+              bind (vis fs b) (fun kb ->
+                bind (type_name ka) (fun ta ->
+                  bind (type_name kb) (fun tb ->
+                    bind (most_accurate ta tb) (fun t ->
+                      bind (as_cpp ka) (fun _ ->
+                        bind (as_cpp kb) (fun _ -> OK (KVal ((Some
+                          (if eqb0 op ('D'::('i'::('v'::[])))
+                           then 'd'::('o'::('u'::('b'::('l'::('e'::[])))))
+                           else t)), O)))))))))
+       else if eqb0 op ('P'::('o'::('w'::[])))
+            then bind (vis_cpp fs a) (fun _ ->
+                   bind (vis_cpp fs b) (fun _ -> OK (KVal ((Some
+                     ('d'::('o'::('u'::('b'::('l'::('e'::[]))))))), O))))
+            else Error ErrRuntime
+     | EUnOp (op, a) ->
+       if known_unop op
+       then bind (vis_cpp fs a) (fun k ->
+              bind (type_name k) (fun t -> OK (KVal ((Some t), O))))
+       else Error ErrRuntime
+     | ECompare (ops, l, cs) ->
+       (match ops with
+        | [] -> Error ErrRuntime
+        | op :: l0 ->
+          (match l0 with
+           | [] ->
+             (match cs with
+              | [] -> Error ErrRuntime
+              | c :: l1 ->
+                (match l1 with
+                 | [] ->
+                   bind (vis_cpp fs l) (fun _ ->
+                     bind (vis_cpp fs c) (fun _ ->
+                       if known_cmp op
+                       then OK (KVal ((Some ('b'::('o'::('o'::('l'::[]))))),
+                              O))
+                       else Error ErrKey))
+                 | _ :: _ -> Error ErrRuntime))
+           | _ :: _ -> Error ErrRuntime))
+     | EBoolOp (_, vs) ->
+       bind (vis_list vs) (fun ks ->
+         if forallb is_cpp_value ks
+         then OK (KVal ((Some ('b'::('o'::('o'::('l'::[]))))), O))
+         else Error ErrAttr)
+     | EIfExp (c, a, b) ->
+       bind (vis fs c) (fun kc ->
+         bind (vis fs a) (fun ka ->
+           bind (vis fs b) (fun kb ->
+             bind (as_cpp kc) (fun _ ->
+               if (&&) (is_cpp_value ka) (is_cpp_value kb)
+               then OK (KVal ((Some
+                      ('d'::('o'::('u'::('b'::('l'::('e'::[]))))))), O))
+               else Error ErrAttr))))
+     | ESubscript (v, i) ->
+       bind (vis fs v) (fun kv ->
+         match kv with
+         | KColl (_, _, ety, epd) ->
+           bind (vis_cpp fs i) (fun _ -> OK (KVal ((Some ety), epd)))
+         | _ -> Error ErrRuntime)
+     | ETuple es -> bind (vis_list es) (fun ks -> OK (KTuple ks))
+     | EList es -> bind (vis_list es) (fun ks -> OK (KTuple ks))
+     | EDict (has_none, lit, vs) ->
+       if has_none
+       then Error ErrValue
+       else bind (vis_list vs) (fun ks -> OK (KDict (ks, lit)))
+     | EOther (_, ch) -> bind (generic ch) (fun _ -> Error ErrRuntime)
+     | EKind k -> OK k
+     | _ -> Error ErrRuntime)
+
+(** val translate : registry -> nat -> expr -> kind result **)
+
+let translate g fuel top = match top with
+| ECall (f, _, _) ->
+  (match f with
+   | EName g0 ->
+     if eqb0 g0
+          ('R'::('e'::('s'::('u'::('l'::('t'::('T'::('T'::('r'::('e'::('e'::[])))))))))))
+     then visit g fuel [] top
+     else bind (visit g fuel [] top) (fun r ->
+            match r with
+            | KSeq v ->
+              (match v with
+               | KTuple ks -> result_ttree r (length ks)
+               | KDict (ks, lit) ->
+                 if lit
+                 then result_ttree (KSeq (KTuple ks)) (length ks)
+                 else Error ErrValue
+               | KNs _ -> Error ErrValue
+               | KEnum _ -> Error ErrValue
+               | _ -> result_ttree r (S O))
+            | KTree -> OK KTree
+            | _ -> Error ErrValue)
+   | _ -> Error ErrValue)
+| _ -> Error ErrValue
+
+(** val d_expr_fuel : nat -> sexp -> expr option **)
+
+let rec d_expr_fuel fuel s =
+  match fuel with
+  | O -> None
+  | S f ->
+    let dl =
+      let rec dl = function
+      | [] -> Some []
+      | x :: r ->
+        (match d_expr_fuel f x with
+         | Some a ->
+           (match dl r with
+            | Some r' -> Some (a :: r')
+            | None -> None)
+         | None -> None)
+      in dl
+    in
+    (match s with
+     | SAtom _ -> None
+     | SList l0 ->
+       (match l0 with
+        | [] -> None
+        | s0 :: l1 ->
+          (match s0 with
+           | SAtom s1 ->
+             (match s1 with
+              | [] -> None
+              | a0::s2 ->
+                (* If this appears, you're using Ascii internals. Please don't *)
+ (fun f c ->
+  let n = Char.code c in
+  let h i = (n land (1 lsl i)) <> 0 in
+  f (h 0) (h 1) (h 2) (h 3) (h 4) (h 5) (h 6) (h 7))
+                  (fun b0 b1 b2 b3 b4 b5 b6 b7 ->
+                  if b0
+                  then if b1
+                       then if b2
+                            then if b3
+                                 then if b4
+                                      then None
+                                      else if b5
+                                           then if b6
+                                                then if b7
+                                                     then None
+                                                     else (match s2 with
+                                                           | [] -> None
+                                                           | a::s3 ->
+                                                             (* If this appears, you're using Ascii internals. Please don't *)
+ (fun f c ->
+  let n = Char.code c in
+  let h i = (n land (1 lsl i)) <> 0 in
+  f (h 0) (h 1) (h 2) (h 3) (h 4) (h 5) (h 6) (h 7))
+                                                               (fun b b8 b9 b10 b11 b12 b13 b14 ->
+                                                               if b
+                                                               then None
+                                                               else if b8
+                                                                    then None
+                                                                    else 
+                                                                    if b9
+                                                                    then 
+                                                                    if b10
+                                                                    then None
+                                                                    else 
+                                                                    if b11
+                                                                    then 
+                                                                    if b12
+                                                                    then 
+                                                                    if b13
+                                                                    then 
+                                                                    if b14
+                                                                    then None
+                                                                    else 
+                                                                    (match s3 with
+                                                                    | [] ->
+                                                                    None
+                                                                    | a1::s4 ->
+                                                                    (* If this appears, you're using Ascii internals. Please don't *)
+ (fun f c ->
+  let n = Char.code c in
+  let h i = (n land (1 lsl i)) <> 0 in
+  f (h 0) (h 1) (h 2) (h 3) (h 4) (h 5) (h 6) (h 7))
+                                                                    (fun b15 b16 b17 b18 b19 b20 b21 b22 ->
+                                                                    if b15
+                                                                    then None
+                                                                    else 
+                                                                    if b16
+                                                                    then None
+                                                                    else 
+                                                                    if b17
+                                                                    then None
+                                                                    else 
+                                                                    if b18
+                                                                    then 
+                                                                    if b19
+                                                                    then None
+                                                                    else 
+                                                                    if b20
+                                                                    then 
+                                                                    if b21
+                                                                    then 
+                                                                    if b22
+                                                                    then None
+                                                                    else 
+                                                                    (match s4 with
+                                                                    | [] ->
+                                                                    None
+                                                                    | a2::s5 ->
+                                                                    (* If this appears, you're using Ascii internals. Please don't *)
+ (fun f c ->
+  let n = Char.code c in
+  let h i = (n land (1 lsl i)) <> 0 in
+  f (h 0) (h 1) (h 2) (h 3) (h 4) (h 5) (h 6) (h 7))
+                                                                    (fun b23 b24 b25 b26 b27 b28 b29 b30 ->
+                                                                    if b23
+                                                                    then 
+                                                                    if b24
+                                                                    then None
+                                                                    else 
+                                                                    if b25
+                                                                    then 
+                                                                    if b26
+                                                                    then None
+                                                                    else 
+                                                                    if b27
+                                                                    then None
+                                                                    else 
+                                                                    if b28
+                                                                    then 
+                                                                    if b29
+                                                                    then 
+                                                                    if b30
+                                                                    then None
+                                                                    else 
+                                                                    (match s5 with
+                                                                    | [] ->
+                                                                    None
+                                                                    | a3::s6 ->
+                                                                    (* If this appears, you're using Ascii internals. Please don't *)
+ (fun f c ->
+  let n = Char.code c in
+  let h i = (n land (1 lsl i)) <> 0 in
+  f (h 0) (h 1) (h 2) (h 3) (h 4) (h 5) (h 6) (h 7))
+                                                                    (fun b31 b32 b33 b34 b35 b36 b37 b38 ->
+                                                                    if b31
+                                                                    then None
+                                                                    else 
+                                                                    if b32
+                                                                    then 
+                                                                    if b33
+                                                                    then None
+                                                                    else 
+                                                                    if b34
+                                                                    then None
+                                                                    else 
+                                                                    if b35
+                                                                    then 
+                                                                    if b36
+                                                                    then 
+                                                                    if b37
+                                                                    then 
+                                                                    if b38
+                                                                    then None
+                                                                    else 
+                                                                    (match s6 with
+                                                                    | [] ->
+                                                                    (match l1 with
+                                                                    | [] ->
+                                                                    None
+                                                                    | s7 :: l ->
+                                                                    (match s7 with
+                                                                    | SAtom c ->
+                                                                    (match l with
+                                                                    | [] ->
+                                                                    None
+                                                                    | s8 :: l2 ->
+                                                                    (match s8 with
+                                                                    | SAtom _ ->
+                                                                    None
+                                                                    | SList ch ->
+                                                                    (match l2 with
+                                                                    | [] ->
+                                                                    option_map
+                                                                    (fun x ->
+                                                                    EOther
+                                                                    (c, x))
+                                                                    (dl ch)
+                                                                    | _ :: _ ->
+                                                                    None)))
+                                                                    | SList _ ->
+                                                                    None))
+                                                                    | _::_ ->
+                                                                    None)
+                                                                    else None
+                                                                    else None
+                                                                    else None
+                                                                    else None)
+                                                                    a3)
+                                                                    else None
+                                                                    else None
+                                                                    else None
+                                                                    else None)
+                                                                    a2)
+                                                                    else None
+                                                                    else None
+                                                                    else None)
+                                                                    a1)
+                                                                    else None
+                                                                    else None
+                                                                    else None
+                                                                    else None)
+                                                               a)
+                                                else None
+                                           else None
+                                 else None
+                            else if b3
+                                 then None
+                                 else if b4
+                                      then if b5
+                                           then if b6
+                                                then if b7
+                                                     then None
+                                                     else (match s2 with
+                                                           | [] -> None
+                                                           | a::s3 ->
+                                                             (* If this appears, you're using Ascii internals. Please don't *)
+ (fun f c ->
+  let n = Char.code c in
+  let h i = (n land (1 lsl i)) <> 0 in
+  f (h 0) (h 1) (h 2) (h 3) (h 4) (h 5) (h 6) (h 7))
+                                                               (fun b b8 b9 b10 b11 b12 b13 b14 ->
+                                                               if b
+                                                               then if b8
+                                                                    then None
+                                                                    else 
+                                                                    if b9
+                                                                    then 
+                                                                    if b10
+                                                                    then None
+                                                                    else 
+                                                                    if b11
+                                                                    then 
+                                                                    if b12
+                                                                    then 
+                                                                    if b13
+                                                                    then 
+                                                                    if b14
+                                                                    then None
+                                                                    else 
+                                                                    (match s3 with
+                                                                    | [] ->
+                                                                    None
+                                                                    | a1::s4 ->
+                                                                    (* If this appears, you're using Ascii internals. Please don't *)
+ (fun f c ->
+  let n = Char.code c in
+  let h i = (n land (1 lsl i)) <> 0 in
+  f (h 0) (h 1) (h 2) (h 3) (h 4) (h 5) (h 6) (h 7))
+                                                                    (fun b15 b16 b17 b18 b19 b20 b21 b22 ->
+                                                                    if b15
+                                                                    then None
+                                                                    else 
+                                                                    if b16
+                                                                    then 
+                                                                    if b17
+                                                                    then None
+                                                                    else 
+                                                                    if b18
+                                                                    then None
+                                                                    else 
+                                                                    if b19
+                                                                    then None
+                                                                    else 
+                                                                    if b20
+                                                                    then 
+                                                                    if b21
+                                                                    then 
+                                                                    if b22
+                                                                    then None
+                                                                    else 
+                                                                    (match s4 with
+                                                                    | [] ->
+                                                                    None
+                                                                    | a2::s5 ->
+                                                                    (* If this appears, you're using Ascii internals. Please don't *)
+ (fun f c ->
+  let n = Char.code c in
+  let h i = (n land (1 lsl i)) <> 0 in
+  f (h 0) (h 1) (h 2) (h 3) (h 4) (h 5) (h 6) (h 7))
+                                                                    (fun b23 b24 b25 b26 b27 b28 b29 b30 ->
+                                                                    if b23
+                                                                    then 
+                                                                    if b24
+                                                                    then 
+                                                                    if b25
+                                                                    then None
+                                                                    else 
+                                                                    if b26
+                                                                    then None
+                                                                    else 
+                                                                    if b27
+                                                                    then 
+                                                                    if b28
+                                                                    then 
+                                                                    if b29
+                                                                    then 
+                                                                    if b30
+                                                                    then None
+                                                                    else 
+                                                                    (match s5 with
+                                                                    | [] ->
+                                                                    None
+                                                                    | a3::s6 ->
+                                                                    (* If this appears, you're using Ascii internals. Please don't *)
+ (fun f c ->
+  let n = Char.code c in
+  let h i = (n land (1 lsl i)) <> 0 in
+  f (h 0) (h 1) (h 2) (h 3) (h 4) (h 5) (h 6) (h 7))
+                                                                    (fun b31 b32 b33 b34 b35 b36 b37 b38 ->
+                                                                    if b31
+                                                                    then 
+                                                                    if b32
+                                                                    then 
+                                                                    if b33
+                                                                    then None
+                                                                    else 
+                                                                    if b34
+                                                                    then None
+                                                                    else 
+                                                                    if b35
+                                                                    then None
+                                                                    else 
+                                                                    if b36
+                                                                    then 
+                                                                    if b37
+                                                                    then 
+                                                                    if b38
+                                                                    then None
+                                                                    else 
+                                                                    (match s6 with
+                                                                    | [] ->
+                                                                    None
+                                                                    | a4::s7 ->
+                                                                    (* If this appears, you're using Ascii internals. Please don't *)
+ (fun f c ->
+  let n = Char.code c in
+  let h i = (n land (1 lsl i)) <> 0 in
+  f (h 0) (h 1) (h 2) (h 3) (h 4) (h 5) (h 6) (h 7))
+                                                                    (fun b39 b40 b41 b42 b43 b44 b45 b46 ->
+                                                                    if b39
+                                                                    then None
+                                                                    else 
+                                                                    if b40
+                                                                    then 
+                                                                    if b41
+                                                                    then None
+                                                                    else 
+                                                                    if b42
+                                                                    then None
+                                                                    else 
+                                                                    if b43
+                                                                    then 
+                                                                    if b44
+                                                                    then 
+                                                                    if b45
+                                                                    then 
+                                                                    if b46
+                                                                    then None
+                                                                    else 
+                                                                    (match s7 with
+                                                                    | [] ->
+                                                                    None
+                                                                    | a5::s8 ->
+                                                                    (* If this appears, you're using Ascii internals. Please don't *)
+ (fun f c ->
+  let n = Char.code c in
+  let h i = (n land (1 lsl i)) <> 0 in
+  f (h 0) (h 1) (h 2) (h 3) (h 4) (h 5) (h 6) (h 7))
+                                                                    (fun b47 b48 b49 b50 b51 b52 b53 b54 ->
+                                                                    if b47
+                                                                    then 
+                                                                    if b48
+                                                                    then None
+                                                                    else 
+                                                                    if b49
+                                                                    then None
+                                                                    else 
+                                                                    if b50
+                                                                    then 
+                                                                    if b51
+                                                                    then None
+                                                                    else 
+                                                                    if b52
+                                                                    then 
+                                                                    if b53
+                                                                    then 
+                                                                    if b54
+                                                                    then None
+                                                                    else 
+                                                                    (match s8 with
+                                                                    | [] ->
+                                                                    None
+                                                                    | a6::s9 ->
+                                                                    (* If this appears, you're using Ascii internals. Please don't *)
+ (fun f c ->
+  let n = Char.code c in
+  let h i = (n land (1 lsl i)) <> 0 in
+  f (h 0) (h 1) (h 2) (h 3) (h 4) (h 5) (h 6) (h 7))
+                                                                    (fun b55 b56 b57 b58 b59 b60 b61 b62 ->
+                                                                    if b55
+                                                                    then None
+                                                                    else 
+                                                                    if b56
+                                                                    then None
+                                                                    else 
+                                                                    if b57
+                                                                    then None
+                                                                    else 
+                                                                    if b58
+                                                                    then None
+                                                                    else 
+                                                                    if b59
+                                                                    then 
+                                                                    if b60
+                                                                    then 
+                                                                    if b61
+                                                                    then 
+                                                                    if b62
+                                                                    then None
+                                                                    else 
+                                                                    (match s9 with
+                                                                    | [] ->
+                                                                    None
+                                                                    | a7::s10 ->
+                                                                    (* If this appears, you're using Ascii internals. Please don't *)
+ (fun f c ->
+  let n = Char.code c in
+  let h i = (n land (1 lsl i)) <> 0 in
+  f (h 0) (h 1) (h 2) (h 3) (h 4) (h 5) (h 6) (h 7))
+                                                                    (fun b63 b64 b65 b66 b67 b68 b69 b70 ->
+                                                                    if b63
+                                                                    then None
+                                                                    else 
+                                                                    if b64
+                                                                    then None
+                                                                    else 
+                                                                    if b65
+                                                                    then 
+                                                                    if b66
+                                                                    then None
+                                                                    else 
+                                                                    if b67
+                                                                    then 
+                                                                    if b68
+                                                                    then 
+                                                                    if b69
+                                                                    then 
+                                                                    if b70
+                                                                    then None
+                                                                    else 
+                                                                    (match s10 with
+                                                                    | [] ->
+                                                                    (match l1 with
+                                                                    | [] ->
+                                                                    None
+                                                                    | v :: l ->
+                                                                    (match l with
+                                                                    | [] ->
+                                                                    None
+                                                                    | i :: l2 ->
+                                                                    (match l2 with
+                                                                    | [] ->
+                                                                    (match 
+                                                                    d_expr_fuel
+                                                                    f v with
+                                                                    | Some v' ->
+                                                                    (match 
+                                                                    d_expr_fuel
+                                                                    f i with
+                                                                    | Some i' ->
+                                                                    Some
+                                                                    (ESubscript
+                                                                    (v', i'))
+                                                                    | None ->
+                                                                    None)
+                                                                    | None ->
+                                                                    None)
+                                                                    | _ :: _ ->
+                                                                    None)))
+                                                                    | _::_ ->
+                                                                    None)
+                                                                    else None
+                                                                    else None
+                                                                    else None
+                                                                    else None)
+                                                                    a7)
+                                                                    else None
+                                                                    else None
+                                                                    else None)
+                                                                    a6)
+                                                                    else None
+                                                                    else None
+                                                                    else None
+                                                                    else None)
+                                                                    a5)
+                                                                    else None
+                                                                    else None
+                                                                    else None
+                                                                    else None)
+                                                                    a4)
+                                                                    else None
+                                                                    else None
+                                                                    else None
+                                                                    else None)
+                                                                    a3)
+                                                                    else None
+                                                                    else None
+                                                                    else None
+                                                                    else None
+                                                                    else None)
+                                                                    a2)
+                                                                    else None
+                                                                    else None
+                                                                    else None)
+                                                                    a1)
+                                                                    else None
+                                                                    else None
+                                                                    else None
+                                                                    else None
+                                                               else None)
+                                                               a)
+                                                else None
+                                           else None
+                                      else if b5
+                                           then if b6
+                                                then if b7
+                                                     then None
+                                                     else (match s2 with
+                                                           | [] -> None
+                                                           | a::s3 ->
+                                                             (* If this appears, you're using Ascii internals. Please don't *)
+ (fun f c ->
+  let n = Char.code c in
+  let h i = (n land (1 lsl i)) <> 0 in
+  f (h 0) (h 1) (h 2) (h 3) (h 4) (h 5) (h 6) (h 7))
+                                                               (fun b b8 b9 b10 b11 b12 b13 b14 ->
+                                                               if b
+                                                               then if b8
+                                                                    then 
+                                                                    if b9
+                                                                    then 
+                                                                    if b10
+                                                                    then 
+                                                                    if b11
+                                                                    then None
+                                                                    else 
+                                                                    if b12
+                                                                    then 
+                                                                    if b13
+                                                                    then 
+                                                                    if b14
+                                                                    then None
+                                                                    else 
+                                                                    (match s3 with
+                                                                    | [] ->
+                                                                    None
+                                                                    | a1::s4 ->
+                                                                    (* If this appears, you're using Ascii internals. Please don't *)
+ (fun f c ->
+  let n = Char.code c in
+  let h i = (n land (1 lsl i)) <> 0 in
+  f (h 0) (h 1) (h 2) (h 3) (h 4) (h 5) (h 6) (h 7))
+                                                                    (fun b15 b16 b17 b18 b19 b20 b21 b22 ->
+                                                                    if b15
+                                                                    then 
+                                                                    if b16
+                                                                    then None
+                                                                    else 
+                                                                    if b17
+                                                                    then 
+                                                                    if b18
+                                                                    then 
+                                                                    if b19
+                                                                    then None
+                                                                    else 
+                                                                    if b20
+                                                                    then 
+                                                                    if b21
+                                                                    then 
+                                                                    if b22
+                                                                    then None
+                                                                    else 
+                                                                    (match s4 with
+                                                                    | [] ->
+                                                                    None
+                                                                    | a2::s5 ->
+                                                                    (* If this appears, you're using Ascii internals. Please don't *)
+ (fun f c ->
+  let n = Char.code c in
+  let h i = (n land (1 lsl i)) <> 0 in
+  f (h 0) (h 1) (h 2) (h 3) (h 4) (h 5) (h 6) (h 7))
+                                                                    (fun b23 b24 b25 b26 b27 b28 b29 b30 ->
+                                                                    if b23
+                                                                    then None
+                                                                    else 
+                                                                    if b24
+                                                                    then None
+                                                                    else 
+                                                                    if b25
+                                                                    then None
+                                                                    else 
+                                                                    if b26
+                                                                    then None
+                                                                    else 
+                                                                    if b27
+                                                                    then 
+                                                                    if b28
+                                                                    then 
+                                                                    if b29
+                                                                    then 
+                                                                    if b30
+                                                                    then None
+                                                                    else 
+                                                                    (match s5 with
+                                                                    | [] ->
+                                                                    None
+                                                                    | a3::s6 ->
+                                                                    (* If this appears, you're using Ascii internals. Please don't *)
+ (fun f c ->
+  let n = Char.code c in
+  let h i = (n land (1 lsl i)) <> 0 in
+  f (h 0) (h 1) (h 2) (h 3) (h 4) (h 5) (h 6) (h 7))
+                                                                    (fun b31 b32 b33 b34 b35 b36 b37 b38 ->
+                                                                    if b31
+                                                                    then 
+                                                                    if b32
+                                                                    then None
+                                                                    else 
+                                                                    if b33
+                                                                    then None
+                                                                    else 
+                                                                    if b34
+                                                                    then None
+                                                                    else 
+                                                                    if b35
+                                                                    then None
+                                                                    else 
+                                                                    if b36
+                                                                    then 
+                                                                    if b37
+                                                                    then 
+                                                                    if b38
+                                                                    then None
+                                                                    else 
+                                                                    (match s6 with
+                                                                    | [] ->
+                                                                    None
+                                                                    | a4::s7 ->
+                                                                    (* If this appears, you're using Ascii internals. Please don't *)
+ (fun f c ->
+  let n = Char.code c in
+  let h i = (n land (1 lsl i)) <> 0 in
+  f (h 0) (h 1) (h 2) (h 3) (h 4) (h 5) (h 6) (h 7))
+                                                                    (fun b39 b40 b41 b42 b43 b44 b45 b46 ->
+                                                                    if b39
+                                                                    then None
+                                                                    else 
+                                                                    if b40
+                                                                    then 
+                                                                    if b41
+                                                                    then None
+                                                                    else 
+                                                                    if b42
+                                                                    then None
+                                                                    else 
+                                                                    if b43
+                                                                    then 
+                                                                    if b44
+                                                                    then 
+                                                                    if b45
+                                                                    then 
+                                                                    if b46
+                                                                    then None
+                                                                    else 
+                                                                    (match s7 with
+                                                                    | [] ->
+                                                                    None
+                                                                    | a5::s8 ->
+                                                                    (* If this appears, you're using Ascii internals. Please don't *)
+ (fun f c ->
+  let n = Char.code c in
+  let h i = (n land (1 lsl i)) <> 0 in
+  f (h 0) (h 1) (h 2) (h 3) (h 4) (h 5) (h 6) (h 7))
+                                                                    (fun b47 b48 b49 b50 b51 b52 b53 b54 ->
+                                                                    if b47
+                                                                    then 
+                                                                    if b48
+                                                                    then None
+                                                                    else 
+                                                                    if b49
+                                                                    then 
+                                                                    if b50
+                                                                    then None
+                                                                    else 
+                                                                    if b51
+                                                                    then None
+                                                                    else 
+                                                                    if b52
+                                                                    then 
+                                                                    if b53
+                                                                    then 
+                                                                    if b54
+                                                                    then None
+                                                                    else 
+                                                                    (match s8 with
+                                                                    | [] ->
+                                                                    (match l1 with
+                                                                    | [] ->
+                                                                    None
+                                                                    | ops :: l2 ->
+                                                                    (match l2 with
+                                                                    | [] ->
+                                                                    None
+                                                                    | l :: l3 ->
+                                                                    (match l3 with
+                                                                    | [] ->
+                                                                    None
+                                                                    | s9 :: l4 ->
+                                                                    (match s9 with
+                                                                    | SAtom _ ->
+                                                                    None
+                                                                    | SList cs ->
+                                                                    (match l4 with
+                                                                    | [] ->
+                                                                    (match 
+                                                                    d_strs ops with
+                                                                    | Some o' ->
+                                                                    (match 
+                                                                    d_expr_fuel
+                                                                    f l with
+                                                                    | Some l' ->
+                                                                    (match 
+                                                                    dl cs with
+                                                                    | Some c' ->
+                                                                    Some
+                                                                    (ECompare
+                                                                    (o', l',
+                                                                    c'))
+                                                                    | None ->
+                                                                    None)
+                                                                    | None ->
+                                                                    None)
+                                                                    | None ->
+                                                                    None)
+                                                                    | _ :: _ ->
+                                                                    None)))))
+                                                                    | _::_ ->
+                                                                    None)
+                                                                    else None
+                                                                    else None
+                                                                    else None
+                                                                    else None)
+                                                                    a5)
+                                                                    else None
+                                                                    else None
+                                                                    else None
+                                                                    else None)
+                                                                    a4)
+                                                                    else None
+                                                                    else None
+                                                                    else None)
+                                                                    a3)
+                                                                    else None
+                                                                    else None
+                                                                    else None)
+                                                                    a2)
+                                                                    else None
+                                                                    else None
+                                                                    else None
+                                                                    else None
+                                                                    else 
+                                                                    if b16
+                                                                    then 
+                                                                    if b17
+                                                                    then 
+                                                                    if b18
+                                                                    then 
+                                                                    if b19
+                                                                    then None
+                                                                    else 
+                                                                    if b20
+                                                                    then 
+                                                                    if b21
+                                                                    then 
+                                                                    if b22
+                                                                    then None
+                                                                    else 
+                                                                    (match s4 with
+                                                                    | [] ->
+                                                                    None
+                                                                    | a2::s5 ->
+                                                                    (* If this appears, you're using Ascii internals. Please don't *)
+ (fun f c ->
+  let n = Char.code c in
+  let h i = (n land (1 lsl i)) <> 0 in
+  f (h 0) (h 1) (h 2) (h 3) (h 4) (h 5) (h 6) (h 7))
+                                                                    (fun b23 b24 b25 b26 b27 b28 b29 b30 ->
+                                                                    if b23
+                                                                    then 
+                                                                    if b24
+                                                                    then 
+                                                                    if b25
+                                                                    then None
+                                                                    else 
+                                                                    if b26
+                                                                    then None
+                                                                    else 
+                                                                    if b27
+                                                                    then 
+                                                                    if b28
+                                                                    then 
+                                                                    if b29
+                                                                    then 
+                                                                    if b30
+                                                                    then None
+                                                                    else 
+                                                                    (match s5 with
+                                                                    | [] ->
+                                                                    None
+                                                                    | a3::s6 ->
+                                                                    (* If this appears, you're using Ascii internals. Please don't *)
+ (fun f c ->
+  let n = Char.code c in
+  let h i = (n land (1 lsl i)) <> 0 in
+  f (h 0) (h 1) (h 2) (h 3) (h 4) (h 5) (h 6) (h 7))
+                                                                    (fun b31 b32 b33 b34 b35 b36 b37 b38 ->
+                                                                    if b31
+                                                                    then None
+                                                                    else 
+                                                                    if b32
+                                                                    then None
+                                                                    else 
+                                                                    if b33
+                                                                    then 
+                                                                    if b34
+                                                                    then None
+                                                                    else 
+                                                                    if b35
+                                                                    then 
+                                                                    if b36
+                                                                    then 
+                                                                    if b37
+                                                                    then 
+                                                                    if b38
+                                                                    then None
+                                                                    else 
+                                                                    (match s6 with
+                                                                    | [] ->
+                                                                    (match l1 with
+                                                                    | [] ->
+                                                                    None
+                                                                    | s7 :: l ->
+                                                                    (match s7 with
+                                                                    | SAtom t ->
+                                                                    (match l with
+                                                                    | [] ->
+                                                                    Some
+                                                                    (EConst t)
+                                                                    | _ :: _ ->
+                                                                    None)
+                                                                    | SList _ ->
+                                                                    None))
+                                                                    | _::_ ->
+                                                                    None)
+                                                                    else None
+                                                                    else None
+                                                                    else None
+                                                                    else None)
+                                                                    a3)
+                                                                    else None
+                                                                    else None
+                                                                    else None
+                                                                    else None
+                                                                    else None)
+                                                                    a2)
+                                                                    else None
+                                                                    else None
+                                                                    else None
+                                                                    else None
+                                                                    else None)
+                                                                    a1)
+                                                                    else None
+                                                                    else None
+                                                                    else None
+                                                                    else None
+                                                                    else 
+                                                                    if b9
+                                                                    then None
+                                                                    else 
+                                                                    if b10
+                                                                    then None
+                                                                    else 
+                                                                    if b11
+                                                                    then None
+                                                                    else 
+                                                                    if b12
+                                                                    then 
+                                                                    if b13
+                                                                    then 
+                                                                    if b14
+                                                                    then None
+                                                                    else 
+                                                                    (match s3 with
+                                                                    | [] ->
+                                                                    None
+                                                                    | a1::s4 ->
+                                                                    (* If this appears, you're using Ascii internals. Please don't *)
+ (fun f c ->
+  let n = Char.code c in
+  let h i = (n land (1 lsl i)) <> 0 in
+  f (h 0) (h 1) (h 2) (h 3) (h 4) (h 5) (h 6) (h 7))
+                                                                    (fun b15 b16 b17 b18 b19 b20 b21 b22 ->
+                                                                    if b15
+                                                                    then None
+                                                                    else 
+                                                                    if b16
+                                                                    then None
+                                                                    else 
+                                                                    if b17
+                                                                    then 
+                                                                    if b18
+                                                                    then 
+                                                                    if b19
+                                                                    then None
+                                                                    else 
+                                                                    if b20
+                                                                    then 
+                                                                    if b21
+                                                                    then 
+                                                                    if b22
+                                                                    then None
+                                                                    else 
+                                                                    (match s4 with
+                                                                    | [] ->
+                                                                    None
+                                                                    | a2::s5 ->
+                                                                    (* If this appears, you're using Ascii internals. Please don't *)
+ (fun f c ->
+  let n = Char.code c in
+  let h i = (n land (1 lsl i)) <> 0 in
+  f (h 0) (h 1) (h 2) (h 3) (h 4) (h 5) (h 6) (h 7))
+                                                                    (fun b23 b24 b25 b26 b27 b28 b29 b30 ->
+                                                                    if b23
+                                                                    then None
+                                                                    else 
+                                                                    if b24
+                                                                    then None
+                                                                    else 
+                                                                    if b25
+                                                                    then 
+                                                                    if b26
+                                                                    then 
+                                                                    if b27
+                                                                    then None
+                                                                    else 
+                                                                    if b28
+                                                                    then 
+                                                                    if b29
+                                                                    then 
+                                                                    if b30
+                                                                    then None
+                                                                    else 
+                                                                    (match s5 with
+                                                                    | [] ->
+                                                                    (match l1 with
+                                                                    | [] ->
+                                                                    None
+                                                                    | fn :: l ->
+                                                                    (match l with
+                                                                    | [] ->
+                                                                    None
+                                                                    | s6 :: l2 ->
+                                                                    (match s6 with
+                                                                    | SAtom _ ->
+                                                                    None
+                                                                    | SList args ->
+                                                                    (match l2 with
+                                                                    | [] ->
+                                                                    None
+                                                                    | nkw :: l3 ->
+                                                                    (match l3 with
+                                                                    | [] ->
+                                                                    (match 
+                                                                    d_expr_fuel
+                                                                    f fn with
+                                                                    | Some fn' ->
+                                                                    (match 
+                                                                    dl args with
+                                                                    | Some a' ->
+                                                                    (match 
+                                                                    d_nat nkw with
+                                                                    | Some n0 ->
+                                                                    Some
+                                                                    (ECall
+                                                                    (fn', a',
+                                                                    n0))
+                                                                    | None ->
+                                                                    None)
+                                                                    | None ->
+                                                                    None)
+                                                                    | None ->
+                                                                    None)
+                                                                    | _ :: _ ->
+                                                                    None)))))
+                                                                    | _::_ ->
+                                                                    None)
+                                                                    else None
+                                                                    else None
+                                                                    else None
+                                                                    else None)
+                                                                    a2)
+                                                                    else None
+                                                                    else None
+                                                                    else None
+                                                                    else None)
+                                                                    a1)
+                                                                    else None
+                                                                    else None
+                                                               else if b8
+                                                                    then None
+                                                                    else 
+                                                                    if b9
+                                                                    then None
+                                                                    else 
+                                                                    if b10
+                                                                    then None
+                                                                    else 
+                                                                    if b11
+                                                                    then 
+                                                                    if b12
+                                                                    then 
+                                                                    if b13
+                                                                    then 
+                                                                    if b14
+                                                                    then None
+                                                                    else 
+                                                                    (match s3 with
+                                                                    | [] ->
+                                                                    None
+                                                                    | a1::s4 ->
+                                                                    (* If this appears, you're using Ascii internals. Please don't *)
+ (fun f c ->
+  let n = Char.code c in
+  let h i = (n land (1 lsl i)) <> 0 in
+  f (h 0) (h 1) (h 2) (h 3) (h 4) (h 5) (h 6) (h 7))
+                                                                    (fun b15 b16 b17 b18 b19 b20 b21 b22 ->
+                                                                    if b15
+                                                                    then None
+                                                                    else 
+                                                                    if b16
+                                                                    then None
+                                                                    else 
+                                                                    if b17
+                                                                    then None
+                                                                    else 
+                                                                    if b18
+                                                                    then None
+                                                                    else 
+                                                                    if b19
+                                                                    then 
+                                                                    if b20
+                                                                    then 
+                                                                    if b21
+                                                                    then 
+                                                                    if b22
+                                                                    then None
+                                                                    else 
+                                                                    (match s4 with
+                                                                    | [] ->
+                                                                    None
+                                                                    | a2::s5 ->
+                                                                    (* If this appears, you're using Ascii internals. Please don't *)
+ (fun f c ->
+  let n = Char.code c in
+  let h i = (n land (1 lsl i)) <> 0 in
+  f (h 0) (h 1) (h 2) (h 3) (h 4) (h 5) (h 6) (h 7))
+                                                                    (fun b23 b24 b25 b26 b27 b28 b29 b30 ->
+                                                                    if b23
+                                                                    then 
+                                                                    if b24
+                                                                    then 
+                                                                    if b25
+                                                                    then None
+                                                                    else 
+                                                                    if b26
+                                                                    then None
+                                                                    else 
+                                                                    if b27
+                                                                    then None
+                                                                    else 
+                                                                    if b28
+                                                                    then 
+                                                                    if b29
+                                                                    then 
+                                                                    if b30
+                                                                    then None
+                                                                    else 
+                                                                    (match s5 with
+                                                                    | [] ->
+                                                                    None
+                                                                    | a3::s6 ->
+                                                                    (* If this appears, you're using Ascii internals. Please don't *)
+ (fun f c ->
+  let n = Char.code c in
+  let h i = (n land (1 lsl i)) <> 0 in
+  f (h 0) (h 1) (h 2) (h 3) (h 4) (h 5) (h 6) (h 7))
+                                                                    (fun b31 b32 b33 b34 b35 b36 b37 b38 ->
+                                                                    if b31
+                                                                    then 
+                                                                    if b32
+                                                                    then 
+                                                                    if b33
+                                                                    then 
+                                                                    if b34
+                                                                    then 
+                                                                    if b35
+                                                                    then None
+                                                                    else 
+                                                                    if b36
+                                                                    then 
+                                                                    if b37
+                                                                    then 
+                                                                    if b38
+                                                                    then None
+                                                                    else 
+                                                                    (match s6 with
+                                                                    | [] ->
+                                                                    None
+                                                                    | a4::s7 ->
+                                                                    (* If this appears, you're using Ascii internals. Please don't *)
+ (fun f c ->
+  let n = Char.code c in
+  let h i = (n land (1 lsl i)) <> 0 in
+  f (h 0) (h 1) (h 2) (h 3) (h 4) (h 5) (h 6) (h 7))
+                                                                    (fun b39 b40 b41 b42 b43 b44 b45 b46 ->
+                                                                    if b39
+                                                                    then None
+                                                                    else 
+                                                                    if b40
+                                                                    then None
+                                                                    else 
+                                                                    if b41
+                                                                    then 
+                                                                    if b42
+                                                                    then None
+                                                                    else 
+                                                                    if b43
+                                                                    then None
+                                                                    else 
+                                                                    if b44
+                                                                    then 
+                                                                    if b45
+                                                                    then 
+                                                                    if b46
+                                                                    then None
+                                                                    else 
+                                                                    (match s7 with
+                                                                    | [] ->
+                                                                    None
+                                                                    | a5::s8 ->
+                                                                    (* If this appears, you're using Ascii internals. Please don't *)
+ (fun f c ->
+  let n = Char.code c in
+  let h i = (n land (1 lsl i)) <> 0 in
+  f (h 0) (h 1) (h 2) (h 3) (h 4) (h 5) (h 6) (h 7))
+                                                                    (fun b47 b48 b49 b50 b51 b52 b53 b54 ->
+                                                                    if b47
+                                                                    then 
+                                                                    if b48
+                                                                    then None
+                                                                    else 
+                                                                    if b49
+                                                                    then 
+                                                                    if b50
+                                                                    then None
+                                                                    else 
+                                                                    if b51
+                                                                    then None
+                                                                    else 
+                                                                    if b52
+                                                                    then 
+                                                                    if b53
+                                                                    then 
+                                                                    if b54
+                                                                    then None
+                                                                    else 
+                                                                    (match s8 with
+                                                                    | [] ->
+                                                                    (match l1 with
+                                                                    | [] ->
+                                                                    None
+                                                                    | ic :: l ->
+                                                                    (match l with
+                                                                    | [] ->
+                                                                    None
+                                                                    | s9 :: l2 ->
+                                                                    (match s9 with
+                                                                    | SAtom ty ->
+                                                                    (match l2 with
+                                                                    | [] ->
+                                                                    None
+                                                                    | pd :: l3 ->
+                                                                    (match l3 with
+                                                                    | [] ->
+                                                                    None
+                                                                    | s10 :: l4 ->
+                                                                    (match s10 with
+                                                                    | SAtom ety ->
+                                                                    (match l4 with
+                                                                    | [] ->
+                                                                    None
+                                                                    | epd :: l5 ->
+                                                                    (match l5 with
+                                                                    | [] ->
+                                                                    None
+                                                                    | np :: l6 ->
+                                                                    (match l6 with
+                                                                    | [] ->
+                                                                    None
+                                                                    | inst :: l7 ->
+                                                                    (match l7 with
+                                                                    | [] ->
+                                                                    (match 
+                                                                    d_bool ic with
+                                                                    | Some ic' ->
+                                                                    (match 
+                                                                    d_nat pd with
+                                                                    | Some pd' ->
+                                                                    (match 
+                                                                    d_nat epd with
+                                                                    | Some epd' ->
+                                                                    (match 
+                                                                    d_nat np with
+                                                                    | Some np' ->
+                                                                    Some
+                                                                    (ECppCode
+                                                                    (ic', ty,
+                                                                    pd', ety,
+                                                                    epd',
+                                                                    np',
+                                                                    (match inst with
+                                                                    | SAtom _ ->
+                                                                    None
+                                                                    | SList l8 ->
+                                                                    (match l8 with
+                                                                    | [] ->
+                                                                    None
+                                                                    | s11 :: l9 ->
+                                                                    (match s11 with
+                                                                    | SAtom x ->
+                                                                    (match l9 with
+                                                                    | [] ->
+                                                                    Some x
+                                                                    | _ :: _ ->
+                                                                    None)
+                                                                    | SList _ ->
+                                                                    None)))))
+                                                                    | None ->
+                                                                    None)
+                                                                    | None ->
+                                                                    None)
+                                                                    | None ->
+                                                                    None)
+                                                                    | None ->
+                                                                    None)
+                                                                    | _ :: _ ->
+                                                                    None))))
+                                                                    | SList _ ->
+                                                                    None)))
+                                                                    | SList _ ->
+                                                                    None)))
+                                                                    | _::_ ->
+                                                                    None)
+                                                                    else None
+                                                                    else None
+                                                                    else None
+                                                                    else None)
+                                                                    a5)
+                                                                    else None
+                                                                    else None
+                                                                    else None)
+                                                                    a4)
+                                                                    else None
+                                                                    else None
+                                                                    else None
+                                                                    else None
+                                                                    else None
+                                                                    else None)
+                                                                    a3)
+                                                                    else None
+                                                                    else None
+                                                                    else None
+                                                                    else None)
+                                                                    a2)
+                                                                    else None
+                                                                    else None
+                                                                    else None)
+                                                                    a1)
+                                                                    else None
+                                                                    else None
+                                                                    else None)
+                                                               a)
+                                                else None
+                                           else None
+                       else if b2
+                            then if b3
+                                 then None
+                                 else if b4
+                                      then if b5
+                                           then if b6
+                                                then if b7
+                                                     then None
+                                                     else (match s2 with
+                                                           | [] -> None
+                                                           | a1::s3 ->
+                                                             (* If this appears, you're using Ascii internals. Please don't *)
+ (fun f c ->
+  let n = Char.code c in
+  let h i = (n land (1 lsl i)) <> 0 in
+  f (h 0) (h 1) (h 2) (h 3) (h 4) (h 5) (h 6) (h 7))
+                                                               (fun b b8 b9 b10 b11 b12 b13 b14 ->
+                                                               if b
+                                                               then None
+                                                               else if b8
+                                                                    then 
+                                                                    if b9
+                                                                    then 
+                                                                    if b10
+                                                                    then 
+                                                                    if b11
+                                                                    then None
+                                                                    else 
+                                                                    if b12
+                                                                    then 
+                                                                    if b13
+                                                                    then 
+                                                                    if b14
+                                                                    then None
+                                                                    else 
+                                                                    (match s3 with
+                                                                    | [] ->
+                                                                    None
+                                                                    | a2::s4 ->
+                                                                    (* If this appears, you're using Ascii internals. Please don't *)
+ (fun f c ->
+  let n = Char.code c in
+  let h i = (n land (1 lsl i)) <> 0 in
+  f (h 0) (h 1) (h 2) (h 3) (h 4) (h 5) (h 6) (h 7))
+                                                                    (fun b15 b16 b17 b18 b19 b20 b21 b22 ->
+                                                                    if b15
+                                                                    then 
+                                                                    if b16
+                                                                    then 
+                                                                    if b17
+                                                                    then 
+                                                                    if b18
+                                                                    then 
+                                                                    if b19
+                                                                    then None
+                                                                    else 
+                                                                    if b20
+                                                                    then 
+                                                                    if b21
+                                                                    then 
+                                                                    if b22
+                                                                    then None
+                                                                    else 
+                                                                    (match s4 with
+                                                                    | [] ->
+                                                                    None
+                                                                    | a3::s5 ->
+                                                                    (* If this appears, you're using Ascii internals. Please don't *)
+ (fun f c ->
+  let n = Char.code c in
+  let h i = (n land (1 lsl i)) <> 0 in
+  f (h 0) (h 1) (h 2) (h 3) (h 4) (h 5) (h 6) (h 7))
+                                                                    (fun b23 b24 b25 b26 b27 b28 b29 b30 ->
+                                                                    if b23
+                                                                    then None
+                                                                    else 
+                                                                    if b24
+                                                                    then None
+                                                                    else 
+                                                                    if b25
+                                                                    then None
+                                                                    else 
+                                                                    if b26
+                                                                    then None
+                                                                    else 
+                                                                    if b27
+                                                                    then 
+                                                                    if b28
+                                                                    then 
+                                                                    if b29
+                                                                    then 
+                                                                    if b30
+                                                                    then None
+                                                                    else 
+                                                                    (match s5 with
+                                                                    | [] ->
+                                                                    (match l1 with
+                                                                    | [] ->
+                                                                    None
+                                                                    | s6 :: l ->
+                                                                    (match s6 with
+                                                                    | SAtom op ->
+                                                                    (match l with
+                                                                    | [] ->
+                                                                    None
+                                                                    | a :: l2 ->
+                                                                    (match l2 with
+                                                                    | [] ->
+                                                                    option_map
+                                                                    (fun x ->
+                                                                    EUnOp
+                                                                    (op, x))
+                                                                    (d_expr_fuel
+                                                                    f a)
+                                                                    | _ :: _ ->
+                                                                    None))
+                                                                    | SList _ ->
+                                                                    None))
+                                                                    | _::_ ->
+                                                                    None)
+                                                                    else None
+                                                                    else None
+                                                                    else None)
+                                                                    a3)
+                                                                    else None
+                                                                    else None
+                                                                    else None
+                                                                    else None
+                                                                    else None
+                                                                    else None)
+                                                                    a2)
+                                                                    else None
+                                                                    else None
+                                                                    else None
+                                                                    else None
+                                                                    else None)
+                                                               a1)
+                                                else None
+                                           else None
+                                      else if b5
+                                           then if b6
+                                                then if b7
+                                                     then None
+                                                     else (match s2 with
+                                                           | [] -> None
+                                                           | a::s3 ->
+                                                             (* If this appears, you're using Ascii internals. Please don't *)
+ (fun f c ->
+  let n = Char.code c in
+  let h i = (n land (1 lsl i)) <> 0 in
+  f (h 0) (h 1) (h 2) (h 3) (h 4) (h 5) (h 6) (h 7))
+                                                               (fun b b8 b9 b10 b11 b12 b13 b14 ->
+                                                               if b
+                                                               then None
+                                                               else if b8
+                                                                    then 
+                                                                    if b9
+                                                                    then 
+                                                                    if b10
+                                                                    then None
+                                                                    else 
+                                                                    if b11
+                                                                    then 
+                                                                    if b12
+                                                                    then 
+                                                                    if b13
+                                                                    then 
+                                                                    if b14
+                                                                    then None
+                                                                    else 
+                                                                    (match s3 with
+                                                                    | [] ->
+                                                                    None
+                                                                    | a1::s4 ->
+                                                                    (* If this appears, you're using Ascii internals. Please don't *)
+ (fun f c ->
+  let n = Char.code c in
+  let h i = (n land (1 lsl i)) <> 0 in
+  f (h 0) (h 1) (h 2) (h 3) (h 4) (h 5) (h 6) (h 7))
+                                                                    (fun b15 b16 b17 b18 b19 b20 b21 b22 ->
+                                                                    if b15
+                                                                    then 
+                                                                    if b16
+                                                                    then None
+                                                                    else 
+                                                                    if b17
+                                                                    then 
+                                                                    if b18
+                                                                    then None
+                                                                    else 
+                                                                    if b19
+                                                                    then None
+                                                                    else 
+                                                                    if b20
+                                                                    then 
+                                                                    if b21
+                                                                    then 
+                                                                    if b22
+                                                                    then None
+                                                                    else 
+                                                                    (match s4 with
+                                                                    | [] ->
+                                                                    None
+                                                                    | a2::s5 ->
+                                                                    (* If this appears, you're using Ascii internals. Please don't *)
+ (fun f c ->
+  let n = Char.code c in
+  let h i = (n land (1 lsl i)) <> 0 in
+  f (h 0) (h 1) (h 2) (h 3) (h 4) (h 5) (h 6) (h 7))
+                                                                    (fun b23 b24 b25 b26 b27 b28 b29 b30 ->
+                                                                    if b23
+                                                                    then None
+                                                                    else 
+                                                                    if b24
+                                                                    then 
+                                                                    if b25
+                                                                    then 
+                                                                    if b26
+                                                                    then 
+                                                                    if b27
+                                                                    then None
+                                                                    else 
+                                                                    if b28
+                                                                    then 
+                                                                    if b29
+                                                                    then 
+                                                                    if b30
+                                                                    then None
+                                                                    else 
+                                                                    (match s5 with
+                                                                    | [] ->
+                                                                    None
+                                                                    | a3::s6 ->
+                                                                    (* If this appears, you're using Ascii internals. Please don't *)
+ (fun f c ->
+  let n = Char.code c in
+  let h i = (n land (1 lsl i)) <> 0 in
+  f (h 0) (h 1) (h 2) (h 3) (h 4) (h 5) (h 6) (h 7))
+                                                                    (fun b31 b32 b33 b34 b35 b36 b37 b38 ->
+                                                                    if b31
+                                                                    then None
+                                                                    else 
+                                                                    if b32
+                                                                    then None
+                                                                    else 
+                                                                    if b33
+                                                                    then 
+                                                                    if b34
+                                                                    then None
+                                                                    else 
+                                                                    if b35
+                                                                    then 
+                                                                    if b36
+                                                                    then 
+                                                                    if b37
+                                                                    then 
+                                                                    if b38
+                                                                    then None
+                                                                    else 
+                                                                    (match s6 with
+                                                                    | [] ->
+                                                                    (match l1 with
+                                                                    | [] ->
+                                                                    Some
+                                                                    (EKind
+                                                                    event_kind)
+                                                                    | _ :: _ ->
+                                                                    None)
+                                                                    | _::_ ->
+                                                                    None)
+                                                                    else None
+                                                                    else None
+                                                                    else None
+                                                                    else None)
+                                                                    a3)
+                                                                    else None
+                                                                    else None
+                                                                    else None
+                                                                    else None
+                                                                    else None)
+                                                                    a2)
+                                                                    else None
+                                                                    else None
+                                                                    else None
+                                                                    else None)
+                                                                    a1)
+                                                                    else None
+                                                                    else None
+                                                                    else None
+                                                                    else None
+                                                                    else None)
+                                                               a)
+                                                else None
+                                           else None
+                            else if b3
+                                 then if b4
+                                      then None
+                                      else if b5
+                                           then if b6
+                                                then if b7
+                                                     then None
+                                                     else (match s2 with
+                                                           | [] -> None
+                                                           | a1::s3 ->
+                                                             (* If this appears, you're using Ascii internals. Please don't *)
+ (fun f c ->
+  let n = Char.code c in
+  let h i = (n land (1 lsl i)) <> 0 in
+  f (h 0) (h 1) (h 2) (h 3) (h 4) (h 5) (h 6) (h 7))
+                                                               (fun b8 b9 b10 b11 b12 b13 b14 b15 ->
+                                                               if b8
+                                                               then None
+                                                               else if b9
+                                                                    then 
+                                                                    if b10
+                                                                    then 
+                                                                    if b11
+                                                                    then None
+                                                                    else 
+                                                                    if b12
+                                                                    then None
+                                                                    else 
+                                                                    if b13
+                                                                    then 
+                                                                    if b14
+                                                                    then 
+                                                                    if b15
+                                                                    then None
+                                                                    else 
+                                                                    (match s3 with
+                                                                    | [] ->
+                                                                    None
+                                                                    | a2::s4 ->
+                                                                    (* If this appears, you're using Ascii internals. Please don't *)
+ (fun f c ->
+  let n = Char.code c in
+  let h i = (n land (1 lsl i)) <> 0 in
+  f (h 0) (h 1) (h 2) (h 3) (h 4) (h 5) (h 6) (h 7))
+                                                                    (fun b16 b17 b18 b19 b20 b21 b22 b23 ->
+                                                                    if b16
+                                                                    then 
+                                                                    if b17
+                                                                    then None
+                                                                    else 
+                                                                    if b18
+                                                                    then 
+                                                                    if b19
+                                                                    then None
+                                                                    else 
+                                                                    if b20
+                                                                    then None
+                                                                    else 
+                                                                    if b21
+                                                                    then 
+                                                                    if b22
+                                                                    then 
+                                                                    if b23
+                                                                    then None
+                                                                    else 
+                                                                    (match s4 with
+                                                                    | [] ->
+                                                                    None
+                                                                    | a3::s5 ->
+                                                                    (* If this appears, you're using Ascii internals. Please don't *)
+ (fun f c ->
+  let n = Char.code c in
+  let h i = (n land (1 lsl i)) <> 0 in
+  f (h 0) (h 1) (h 2) (h 3) (h 4) (h 5) (h 6) (h 7))
+                                                                    (fun b24 b25 b26 b27 b28 b29 b30 b31 ->
+                                                                    if b24
+                                                                    then None
+                                                                    else 
+                                                                    if b25
+                                                                    then None
+                                                                    else 
+                                                                    if b26
+                                                                    then None
+                                                                    else 
+                                                                    if b27
+                                                                    then 
+                                                                    if b28
+                                                                    then 
+                                                                    if b29
+                                                                    then 
+                                                                    if b30
+                                                                    then 
+                                                                    if b31
+                                                                    then None
+                                                                    else 
+                                                                    (match s5 with
+                                                                    | [] ->
+                                                                    None
+                                                                    | a4::s6 ->
+                                                                    (* If this appears, you're using Ascii internals. Please don't *)
+ (fun f c ->
+  let n = Char.code c in
+  let h i = (n land (1 lsl i)) <> 0 in
+  f (h 0) (h 1) (h 2) (h 3) (h 4) (h 5) (h 6) (h 7))
+                                                                    (fun b32 b33 b34 b35 b36 b37 b38 b39 ->
+                                                                    if b32
+                                                                    then None
+                                                                    else 
+                                                                    if b33
+                                                                    then None
+                                                                    else 
+                                                                    if b34
+                                                                    then None
+                                                                    else 
+                                                                    if b35
+                                                                    then None
+                                                                    else 
+                                                                    if b36
+                                                                    then 
+                                                                    if b37
+                                                                    then 
+                                                                    if b38
+                                                                    then 
+                                                                    if b39
+                                                                    then None
+                                                                    else 
+                                                                    (match s6 with
+                                                                    | [] ->
+                                                                    (match l1 with
+                                                                    | [] ->
+                                                                    None
+                                                                    | c :: l ->
+                                                                    (match l with
+                                                                    | [] ->
+                                                                    None
+                                                                    | a :: l2 ->
+                                                                    (match l2 with
+                                                                    | [] ->
+                                                                    None
+                                                                    | b :: l3 ->
+                                                                    (match l3 with
+                                                                    | [] ->
+                                                                    (match 
+                                                                    d_expr_fuel
+                                                                    f c with
+                                                                    | Some c' ->
+                                                                    (match 
+                                                                    d_expr_fuel
+                                                                    f a with
+                                                                    | Some a' ->
+                                                                    (match 
+                                                                    d_expr_fuel
+                                                                    f b with
+                                                                    | Some b' ->
+                                                                    Some
+                                                                    (EIfExp
+                                                                    (c', a',
+                                                                    b'))
+                                                                    | None ->
+                                                                    None)
+                                                                    | None ->
+                                                                    None)
+                                                                    | None ->
+                                                                    None)
+                                                                    | _ :: _ ->
+                                                                    None))))
+                                                                    | _::_ ->
+                                                                    None)
+                                                                    else None
+                                                                    else None
+                                                                    else None)
+                                                                    a4)
+                                                                    else None
+                                                                    else None
+                                                                    else None
+                                                                    else None)
+                                                                    a3)
+                                                                    else None
+                                                                    else None
+                                                                    else None
+                                                                    else None)
+                                                                    a2)
+                                                                    else None
+                                                                    else None
+                                                                    else None
+                                                                    else None)
+                                                               a1)
+                                                else None
+                                           else None
+                                 else if b4
+                                      then None
+                                      else if b5
+                                           then if b6
+                                                then if b7
+                                                     then None
+                                                     else (match s2 with
+                                                           | [] -> None
+                                                           | a1::s3 ->
+                                                             (* If this appears, you're using Ascii internals. Please don't *)
+ (fun f c ->
+  let n = Char.code c in
+  let h i = (n land (1 lsl i)) <> 0 in
+  f (h 0) (h 1) (h 2) (h 3) (h 4) (h 5) (h 6) (h 7))
+                                                               (fun b b8 b9 b10 b11 b12 b13 b14 ->
+                                                               if b
+                                                               then None
+                                                               else if b8
+                                                                    then None
+                                                                    else 
+                                                                    if b9
+                                                                    then 
+                                                                    if b10
+                                                                    then None
+                                                                    else 
+                                                                    if b11
+                                                                    then 
+                                                                    if b12
+                                                                    then 
+                                                                    if b13
+                                                                    then 
+                                                                    if b14
+                                                                    then None
+                                                                    else 
+                                                                    (match s3 with
+                                                                    | [] ->
+                                                                    None
+                                                                    | a2::s4 ->
+                                                                    (* If this appears, you're using Ascii internals. Please don't *)
+ (fun f c ->
+  let n = Char.code c in
+  let h i = (n land (1 lsl i)) <> 0 in
+  f (h 0) (h 1) (h 2) (h 3) (h 4) (h 5) (h 6) (h 7))
+                                                                    (fun b15 b16 b17 b18 b19 b20 b21 b22 ->
+                                                                    if b15
+                                                                    then None
+                                                                    else 
+                                                                    if b16
+                                                                    then None
+                                                                    else 
+                                                                    if b17
+                                                                    then 
+                                                                    if b18
+                                                                    then None
+                                                                    else 
+                                                                    if b19
+                                                                    then 
+                                                                    if b20
+                                                                    then 
+                                                                    if b21
+                                                                    then 
+                                                                    if b22
+                                                                    then None
+                                                                    else 
+                                                                    (match s4 with
+                                                                    | [] ->
+                                                                    None
+                                                                    | a3::s5 ->
+                                                                    (* If this appears, you're using Ascii internals. Please don't *)
+ (fun f c ->
+  let n = Char.code c in
+  let h i = (n land (1 lsl i)) <> 0 in
+  f (h 0) (h 1) (h 2) (h 3) (h 4) (h 5) (h 6) (h 7))
+                                                                    (fun b23 b24 b25 b26 b27 b28 b29 b30 ->
+                                                                    if b23
+                                                                    then None
+                                                                    else 
+                                                                    if b24
+                                                                    then 
+                                                                    if b25
+                                                                    then None
+                                                                    else 
+                                                                    if b26
+                                                                    then None
+                                                                    else 
+                                                                    if b27
+                                                                    then 
+                                                                    if b28
+                                                                    then 
+                                                                    if b29
+                                                                    then 
+                                                                    if b30
+                                                                    then None
+                                                                    else 
+                                                                    (match s5 with
+                                                                    | [] ->
+                                                                    (match l1 with
+                                                                    | [] ->
+                                                                    None
+                                                                    | e :: l ->
+                                                                    (match l with
+                                                                    | [] ->
+                                                                    None
+                                                                    | s6 :: l2 ->
+                                                                    (match s6 with
+                                                                    | SAtom a ->
+                                                                    (match l2 with
+                                                                    | [] ->
+                                                                    option_map
+                                                                    (fun e' ->
+                                                                    EAttr
+                                                                    (e', a))
+                                                                    (d_expr_fuel
+                                                                    f e)
+                                                                    | _ :: _ ->
+                                                                    None)
+                                                                    | SList _ ->
+                                                                    None)))
+                                                                    | _::_ ->
+                                                                    None)
+                                                                    else None
+                                                                    else None
+                                                                    else None
+                                                                    else None)
+                                                                    a3)
+                                                                    else None
+                                                                    else None
+                                                                    else None
+                                                                    else None)
+                                                                    a2)
+                                                                    else None
+                                                                    else None
+                                                                    else None
+                                                                    else None)
+                                                               a1)
+                                                else None
+                                           else None
+                  else if b1
+                       then if b2
+                            then if b3
+                                 then if b4
+                                      then None
+                                      else if b5
+                                           then if b6
+                                                then if b7
+                                                     then None
+                                                     else (match s2 with
+                                                           | [] -> None
+                                                           | a::s3 ->
+                                                             (* If this appears, you're using Ascii internals. Please don't *)
+ (fun f c ->
+  let n = Char.code c in
+  let h i = (n land (1 lsl i)) <> 0 in
+  f (h 0) (h 1) (h 2) (h 3) (h 4) (h 5) (h 6) (h 7))
+                                                               (fun b b8 b9 b10 b11 b12 b13 b14 ->
+                                                               if b
+                                                               then if b8
+                                                                    then None
+                                                                    else 
+                                                                    if b9
+                                                                    then None
+                                                                    else 
+                                                                    if b10
+                                                                    then None
+                                                                    else 
+                                                                    if b11
+                                                                    then None
+                                                                    else 
+                                                                    if b12
+                                                                    then 
+                                                                    if b13
+                                                                    then 
+                                                                    if b14
+                                                                    then None
+                                                                    else 
+                                                                    (match s3 with
+                                                                    | [] ->
+                                                                    None
+                                                                    | a1::s4 ->
+                                                                    (* If this appears, you're using Ascii internals. Please don't *)
+ (fun f c ->
+  let n = Char.code c in
+  let h i = (n land (1 lsl i)) <> 0 in
+  f (h 0) (h 1) (h 2) (h 3) (h 4) (h 5) (h 6) (h 7))
+                                                                    (fun b15 b16 b17 b18 b19 b20 b21 b22 ->
+                                                                    if b15
+                                                                    then 
+                                                                    if b16
+                                                                    then None
+                                                                    else 
+                                                                    if b17
+                                                                    then 
+                                                                    if b18
+                                                                    then 
+                                                                    if b19
+                                                                    then None
+                                                                    else 
+                                                                    if b20
+                                                                    then 
+                                                                    if b21
+                                                                    then 
+                                                                    if b22
+                                                                    then None
+                                                                    else 
+                                                                    (match s4 with
+                                                                    | [] ->
+                                                                    None
+                                                                    | a2::s5 ->
+                                                                    (* If this appears, you're using Ascii internals. Please don't *)
+ (fun f c ->
+  let n = Char.code c in
+  let h i = (n land (1 lsl i)) <> 0 in
+  f (h 0) (h 1) (h 2) (h 3) (h 4) (h 5) (h 6) (h 7))
+                                                                    (fun b23 b24 b25 b26 b27 b28 b29 b30 ->
+                                                                    if b23
+                                                                    then 
+                                                                    if b24
+                                                                    then None
+                                                                    else 
+                                                                    if b25
+                                                                    then 
+                                                                    if b26
+                                                                    then None
+                                                                    else 
+                                                                    if b27
+                                                                    then None
+                                                                    else 
+                                                                    if b28
+                                                                    then 
+                                                                    if b29
+                                                                    then 
+                                                                    if b30
+                                                                    then None
+                                                                    else 
+                                                                    (match s5 with
+                                                                    | [] ->
+                                                                    (match l1 with
+                                                                    | [] ->
+                                                                    None
+                                                                    | s6 :: l ->
+                                                                    (match s6 with
+                                                                    | SAtom x ->
+                                                                    (match l with
+                                                                    | [] ->
+                                                                    Some
+                                                                    (EName x)
+                                                                    | _ :: _ ->
+                                                                    None)
+                                                                    | SList _ ->
+                                                                    None))
+                                                                    | _::_ ->
+                                                                    None)
+                                                                    else None
+                                                                    else None
+                                                                    else None
+                                                                    else None)
+                                                                    a2)
+                                                                    else None
+                                                                    else None
+                                                                    else None
+                                                                    else None
+                                                                    else None)
+                                                                    a1)
+                                                                    else None
+                                                                    else None
+                                                               else None)
+                                                               a)
+                                                else None
+                                           else None
+                                 else if b4
+                                      then None
+                                      else if b5
+                                           then if b6
+                                                then if b7
+                                                     then None
+                                                     else (match s2 with
+                                                           | [] -> None
+                                                           | a::s3 ->
+                                                             (* If this appears, you're using Ascii internals. Please don't *)
+ (fun f c ->
+  let n = Char.code c in
+  let h i = (n land (1 lsl i)) <> 0 in
+  f (h 0) (h 1) (h 2) (h 3) (h 4) (h 5) (h 6) (h 7))
+                                                               (fun b b8 b9 b10 b11 b12 b13 b14 ->
+                                                               if b
+                                                               then if b8
+                                                                    then None
+                                                                    else 
+                                                                    if b9
+                                                                    then 
+                                                                    if b10
+                                                                    then None
+                                                                    else 
+                                                                    if b11
+                                                                    then 
+                                                                    if b12
+                                                                    then 
+                                                                    if b13
+                                                                    then 
+                                                                    if b14
+                                                                    then None
+                                                                    else 
+                                                                    (match s3 with
+                                                                    | [] ->
+                                                                    None
+                                                                    | a1::s4 ->
+                                                                    (* If this appears, you're using Ascii internals. Please don't *)
+ (fun f c ->
+  let n = Char.code c in
+  let h i = (n land (1 lsl i)) <> 0 in
+  f (h 0) (h 1) (h 2) (h 3) (h 4) (h 5) (h 6) (h 7))
+                                                                    (fun b15 b16 b17 b18 b19 b20 b21 b22 ->
+                                                                    if b15
+                                                                    then None
+                                                                    else 
+                                                                    if b16
+                                                                    then 
+                                                                    if b17
+                                                                    then 
+                                                                    if b18
+                                                                    then 
+                                                                    if b19
+                                                                    then None
+                                                                    else 
+                                                                    if b20
+                                                                    then 
+                                                                    if b21
+                                                                    then 
+                                                                    if b22
+                                                                    then None
+                                                                    else 
+                                                                    (match s4 with
+                                                                    | [] ->
+                                                                    None
+                                                                    | a2::s5 ->
+                                                                    (* If this appears, you're using Ascii internals. Please don't *)
+ (fun f c ->
+  let n = Char.code c in
+  let h i = (n land (1 lsl i)) <> 0 in
+  f (h 0) (h 1) (h 2) (h 3) (h 4) (h 5) (h 6) (h 7))
+                                                                    (fun b23 b24 b25 b26 b27 b28 b29 b30 ->
+                                                                    if b23
+                                                                    then 
+                                                                    if b24
+                                                                    then None
+                                                                    else 
+                                                                    if b25
+                                                                    then None
+                                                                    else 
+                                                                    if b26
+                                                                    then None
+                                                                    else 
+                                                                    if b27
+                                                                    then None
+                                                                    else 
+                                                                    if b28
+                                                                    then 
+                                                                    if b29
+                                                                    then 
+                                                                    if b30
+                                                                    then None
+                                                                    else 
+                                                                    (match s5 with
+                                                                    | [] ->
+                                                                    None
+                                                                    | a3::s6 ->
+                                                                    (* If this appears, you're using Ascii internals. Please don't *)
+ (fun f c ->
+  let n = Char.code c in
+  let h i = (n land (1 lsl i)) <> 0 in
+  f (h 0) (h 1) (h 2) (h 3) (h 4) (h 5) (h 6) (h 7))
+                                                                    (fun b31 b32 b33 b34 b35 b36 b37 b38 ->
+                                                                    if b31
+                                                                    then 
+                                                                    if b32
+                                                                    then 
+                                                                    if b33
+                                                                    then None
+                                                                    else 
+                                                                    if b34
+                                                                    then None
+                                                                    else 
+                                                                    if b35
+                                                                    then 
+                                                                    if b36
+                                                                    then 
+                                                                    if b37
+                                                                    then 
+                                                                    if b38
+                                                                    then None
+                                                                    else 
+                                                                    (match s6 with
+                                                                    | [] ->
+                                                                    None
+                                                                    | a4::s7 ->
+                                                                    (* If this appears, you're using Ascii internals. Please don't *)
+ (fun f c ->
+  let n = Char.code c in
+  let h i = (n land (1 lsl i)) <> 0 in
+  f (h 0) (h 1) (h 2) (h 3) (h 4) (h 5) (h 6) (h 7))
+                                                                    (fun b39 b40 b41 b42 b43 b44 b45 b46 ->
+                                                                    if b39
+                                                                    then None
+                                                                    else 
+                                                                    if b40
+                                                                    then None
+                                                                    else 
+                                                                    if b41
+                                                                    then 
+                                                                    if b42
+                                                                    then None
+                                                                    else 
+                                                                    if b43
+                                                                    then 
+                                                                    if b44
+                                                                    then 
+                                                                    if b45
+                                                                    then 
+                                                                    if b46
+                                                                    then None
+                                                                    else 
+                                                                    (match s7 with
+                                                                    | [] ->
+                                                                    (match l1 with
+                                                                    | [] ->
+                                                                    None
+                                                                    | s8 :: l ->
+                                                                    (match s8 with
+                                                                    | SAtom c ->
+                                                                    (match l with
+                                                                    | [] ->
+                                                                    None
+                                                                    | s9 :: l2 ->
+                                                                    (match s9 with
+                                                                    | SAtom r ->
+                                                                    (match l2 with
+                                                                    | [] ->
+                                                                    Some
+                                                                    (EFunAst
+                                                                    (c, r))
+                                                                    | _ :: _ ->
+                                                                    None)
+                                                                    | SList _ ->
+                                                                    None))
+                                                                    | SList _ ->
+                                                                    None))
+                                                                    | _::_ ->
+                                                                    None)
+                                                                    else None
+                                                                    else None
+                                                                    else None
+                                                                    else None)
+                                                                    a4)
+                                                                    else None
+                                                                    else None
+                                                                    else None
+                                                                    else None
+                                                                    else None)
+                                                                    a3)
+                                                                    else None
+                                                                    else None
+                                                                    else None)
+                                                                    a2)
+                                                                    else None
+                                                                    else None
+                                                                    else None
+                                                                    else None
+                                                                    else None)
+                                                                    a1)
+                                                                    else None
+                                                                    else None
+                                                                    else None
+                                                                    else None
+                                                               else None)
+                                                               a)
+                                                else None
+                                           else None
+                            else if b3
+                                 then None
+                                 else if b4
+                                      then None
+                                      else if b5
+                                           then if b6
+                                                then if b7
+                                                     then None
+                                                     else (match s2 with
+                                                           | [] -> None
+                                                           | a1::s3 ->
+                                                             (* If this appears, you're using Ascii internals. Please don't *)
+ (fun f c ->
+  let n = Char.code c in
+  let h i = (n land (1 lsl i)) <> 0 in
+  f (h 0) (h 1) (h 2) (h 3) (h 4) (h 5) (h 6) (h 7))
+                                                               (fun b8 b9 b10 b11 b12 b13 b14 b15 ->
+                                                               if b8
+                                                               then if b9
+                                                                    then 
+                                                                    if b10
+                                                                    then 
+                                                                    if b11
+                                                                    then 
+                                                                    if b12
+                                                                    then None
+                                                                    else 
+                                                                    if b13
+                                                                    then 
+                                                                    if b14
+                                                                    then 
+                                                                    if b15
+                                                                    then None
+                                                                    else 
+                                                                    (match s3 with
+                                                                    | [] ->
+                                                                    None
+                                                                    | a::s4 ->
+                                                                    (* If this appears, you're using Ascii internals. Please don't *)
+ (fun f c ->
+  let n = Char.code c in
+  let h i = (n land (1 lsl i)) <> 0 in
+  f (h 0) (h 1) (h 2) (h 3) (h 4) (h 5) (h 6) (h 7))
+                                                                    (fun b b16 b17 b18 b19 b20 b21 b22 ->
+                                                                    if b
+                                                                    then 
+                                                                    if b16
+                                                                    then 
+                                                                    if b17
+                                                                    then 
+                                                                    if b18
+                                                                    then 
+                                                                    if b19
+                                                                    then None
+                                                                    else 
+                                                                    if b20
+                                                                    then 
+                                                                    if b21
+                                                                    then 
+                                                                    if b22
+                                                                    then None
+                                                                    else 
+                                                                    (match s4 with
+                                                                    | [] ->
+                                                                    None
+                                                                    | a2::s5 ->
+                                                                    (* If this appears, you're using Ascii internals. Please don't *)
+ (fun f c ->
+  let n = Char.code c in
+  let h i = (n land (1 lsl i)) <> 0 in
+  f (h 0) (h 1) (h 2) (h 3) (h 4) (h 5) (h 6) (h 7))
+                                                                    (fun b23 b24 b25 b26 b27 b28 b29 b30 ->
+                                                                    if b23
+                                                                    then None
+                                                                    else 
+                                                                    if b24
+                                                                    then None
+                                                                    else 
+                                                                    if b25
+                                                                    then 
+                                                                    if b26
+                                                                    then 
+                                                                    if b27
+                                                                    then None
+                                                                    else 
+                                                                    if b28
+                                                                    then 
+                                                                    if b29
+                                                                    then 
+                                                                    if b30
+                                                                    then None
+                                                                    else 
+                                                                    (match s5 with
+                                                                    | [] ->
+                                                                    None
+                                                                    | a3::s6 ->
+                                                                    (* If this appears, you're using Ascii internals. Please don't *)
+ (fun f c ->
+  let n = Char.code c in
+  let h i = (n land (1 lsl i)) <> 0 in
+  f (h 0) (h 1) (h 2) (h 3) (h 4) (h 5) (h 6) (h 7))
+                                                                    (fun b31 b32 b33 b34 b35 b36 b37 b38 ->
+                                                                    if b31
+                                                                    then 
+                                                                    if b32
+                                                                    then 
+                                                                    if b33
+                                                                    then 
+                                                                    if b34
+                                                                    then 
+                                                                    if b35
+                                                                    then None
+                                                                    else 
+                                                                    if b36
+                                                                    then 
+                                                                    if b37
+                                                                    then 
+                                                                    if b38
+                                                                    then None
+                                                                    else 
+                                                                    (match s6 with
+                                                                    | [] ->
+                                                                    None
+                                                                    | a4::s7 ->
+                                                                    (* If this appears, you're using Ascii internals. Please don't *)
+ (fun f c ->
+  let n = Char.code c in
+  let h i = (n land (1 lsl i)) <> 0 in
+  f (h 0) (h 1) (h 2) (h 3) (h 4) (h 5) (h 6) (h 7))
+                                                                    (fun b39 b40 b41 b42 b43 b44 b45 b46 ->
+                                                                    if b39
+                                                                    then None
+                                                                    else 
+                                                                    if b40
+                                                                    then None
+                                                                    else 
+                                                                    if b41
+                                                                    then None
+                                                                    else 
+                                                                    if b42
+                                                                    then None
+                                                                    else 
+                                                                    if b43
+                                                                    then 
+                                                                    if b44
+                                                                    then 
+                                                                    if b45
+                                                                    then 
+                                                                    if b46
+                                                                    then None
+                                                                    else 
+                                                                    (match s7 with
+                                                                    | [] ->
+                                                                    (match l1 with
+                                                                    | [] ->
+                                                                    None
+                                                                    | s8 :: l ->
+                                                                    (match s8 with
+                                                                    | SAtom op ->
+                                                                    (match l with
+                                                                    | [] ->
+                                                                    None
+                                                                    | s9 :: l2 ->
+                                                                    (match s9 with
+                                                                    | SAtom _ ->
+                                                                    None
+                                                                    | SList vs ->
+                                                                    (match l2 with
+                                                                    | [] ->
+                                                                    option_map
+                                                                    (fun x ->
+                                                                    EBoolOp
+                                                                    (op, x))
+                                                                    (dl vs)
+                                                                    | _ :: _ ->
+                                                                    None)))
+                                                                    | SList _ ->
+                                                                    None))
+                                                                    | _::_ ->
+                                                                    None)
+                                                                    else None
+                                                                    else None
+                                                                    else None)
+                                                                    a4)
+                                                                    else None
+                                                                    else None
+                                                                    else None
+                                                                    else None
+                                                                    else None
+                                                                    else None)
+                                                                    a3)
+                                                                    else None
+                                                                    else None
+                                                                    else None
+                                                                    else None)
+                                                                    a2)
+                                                                    else None
+                                                                    else None
+                                                                    else None
+                                                                    else None
+                                                                    else None
+                                                                    else None)
+                                                                    a)
+                                                                    else None
+                                                                    else None
+                                                                    else None
+                                                                    else None
+                                                                    else 
+                                                                    if b10
+                                                                    then None
+                                                                    else 
+                                                                    if b11
+                                                                    then 
+                                                                    if b12
+                                                                    then None
+                                                                    else 
+                                                                    if b13
+                                                                    then 
+                                                                    if b14
+                                                                    then 
+                                                                    if b15
+                                                                    then None
+                                                                    else 
+                                                                    (match s3 with
+                                                                    | [] ->
+                                                                    None
+                                                                    | a2::s4 ->
+                                                                    (* If this appears, you're using Ascii internals. Please don't *)
+ (fun f c ->
+  let n = Char.code c in
+  let h i = (n land (1 lsl i)) <> 0 in
+  f (h 0) (h 1) (h 2) (h 3) (h 4) (h 5) (h 6) (h 7))
+                                                                    (fun b16 b17 b18 b19 b20 b21 b22 b23 ->
+                                                                    if b16
+                                                                    then None
+                                                                    else 
+                                                                    if b17
+                                                                    then 
+                                                                    if b18
+                                                                    then 
+                                                                    if b19
+                                                                    then 
+                                                                    if b20
+                                                                    then None
+                                                                    else 
+                                                                    if b21
+                                                                    then 
+                                                                    if b22
+                                                                    then 
+                                                                    if b23
+                                                                    then None
+                                                                    else 
+                                                                    (match s4 with
+                                                                    | [] ->
+                                                                    None
+                                                                    | a3::s5 ->
+                                                                    (* If this appears, you're using Ascii internals. Please don't *)
+ (fun f c ->
+  let n = Char.code c in
+  let h i = (n land (1 lsl i)) <> 0 in
+  f (h 0) (h 1) (h 2) (h 3) (h 4) (h 5) (h 6) (h 7))
+                                                                    (fun b24 b25 b26 b27 b28 b29 b30 b31 ->
+                                                                    if b24
+                                                                    then 
+                                                                    if b25
+                                                                    then 
+                                                                    if b26
+                                                                    then 
+                                                                    if b27
+                                                                    then 
+                                                                    if b28
+                                                                    then None
+                                                                    else 
+                                                                    if b29
+                                                                    then 
+                                                                    if b30
+                                                                    then 
+                                                                    if b31
+                                                                    then None
+                                                                    else 
+                                                                    (match s5 with
+                                                                    | [] ->
+                                                                    None
+                                                                    | a4::s6 ->
+                                                                    (* If this appears, you're using Ascii internals. Please don't *)
+ (fun f c ->
+  let n = Char.code c in
+  let h i = (n land (1 lsl i)) <> 0 in
+  f (h 0) (h 1) (h 2) (h 3) (h 4) (h 5) (h 6) (h 7))
+                                                                    (fun b32 b33 b34 b35 b36 b37 b38 b39 ->
+                                                                    if b32
+                                                                    then None
+                                                                    else 
+                                                                    if b33
+                                                                    then None
+                                                                    else 
+                                                                    if b34
+                                                                    then None
+                                                                    else 
+                                                                    if b35
+                                                                    then None
+                                                                    else 
+                                                                    if b36
+                                                                    then 
+                                                                    if b37
+                                                                    then 
+                                                                    if b38
+                                                                    then 
+                                                                    if b39
+                                                                    then None
+                                                                    else 
+                                                                    (match s6 with
+                                                                    | [] ->
+                                                                    (match l1 with
+                                                                    | [] ->
+                                                                    None
+                                                                    | s7 :: l ->
+                                                                    (match s7 with
+                                                                    | SAtom op ->
+                                                                    (match l with
+                                                                    | [] ->
+                                                                    None
+                                                                    | a :: l2 ->
+                                                                    (match l2 with
+                                                                    | [] ->
+                                                                    None
+                                                                    | b :: l3 ->
+                                                                    (match l3 with
+                                                                    | [] ->
+                                                                    (match 
+                                                                    d_expr_fuel
+                                                                    f a with
+                                                                    | Some a' ->
+                                                                    (match 
+                                                                    d_expr_fuel
+                                                                    f b with
+                                                                    | Some b' ->
+                                                                    Some
+                                                                    (EBinOp
+                                                                    (op, a',
+                                                                    b'))
+                                                                    | None ->
+                                                                    None)
+                                                                    | None ->
+                                                                    None)
+                                                                    | _ :: _ ->
+                                                                    None)))
+                                                                    | SList _ ->
+                                                                    None))
+                                                                    | _::_ ->
+                                                                    None)
+                                                                    else None
+                                                                    else None
+                                                                    else None)
+                                                                    a4)
+                                                                    else None
+                                                                    else None
+                                                                    else None
+                                                                    else None
+                                                                    else None
+                                                                    else None)
+                                                                    a3)
+                                                                    else None
+                                                                    else None
+                                                                    else None
+                                                                    else None
+                                                                    else None)
+                                                                    a2)
+                                                                    else None
+                                                                    else None
+                                                                    else None
+                                                               else None)
+                                                               a1)
+                                                else None
+                                           else None
+                       else if b2
+                            then if b3
+                                 then if b4
+                                      then None
+                                      else if b5
+                                           then if b6
+                                                then if b7
+                                                     then None
+                                                     else (match s2 with
+                                                           | [] -> None
+                                                           | a::s3 ->
+                                                             (* If this appears, you're using Ascii internals. Please don't *)
+ (fun f c ->
+  let n = Char.code c in
+  let h i = (n land (1 lsl i)) <> 0 in
+  f (h 0) (h 1) (h 2) (h 3) (h 4) (h 5) (h 6) (h 7))
+                                                               (fun b8 b9 b10 b11 b12 b13 b14 b15 ->
+                                                               if b8
+                                                               then if b9
+                                                                    then None
+                                                                    else 
+                                                                    if b10
+                                                                    then None
+                                                                    else 
+                                                                    if b11
+                                                                    then 
+                                                                    if b12
+                                                                    then None
+                                                                    else 
+                                                                    if b13
+                                                                    then 
+                                                                    if b14
+                                                                    then 
+                                                                    if b15
+                                                                    then None
+                                                                    else 
+                                                                    (match s3 with
+                                                                    | [] ->
+                                                                    None
+                                                                    | a1::s4 ->
+                                                                    (* If this appears, you're using Ascii internals. Please don't *)
+ (fun f c ->
+  let n = Char.code c in
+  let h i = (n land (1 lsl i)) <> 0 in
+  f (h 0) (h 1) (h 2) (h 3) (h 4) (h 5) (h 6) (h 7))
+                                                                    (fun b b16 b17 b18 b19 b20 b21 b22 ->
+                                                                    if b
+                                                                    then 
+                                                                    if b16
+                                                                    then 
+                                                                    if b17
+                                                                    then None
+                                                                    else 
+                                                                    if b18
+                                                                    then None
+                                                                    else 
+                                                                    if b19
+                                                                    then 
+                                                                    if b20
+                                                                    then 
+                                                                    if b21
+                                                                    then 
+                                                                    if b22
+                                                                    then None
+                                                                    else 
+                                                                    (match s4 with
+                                                                    | [] ->
+                                                                    None
+                                                                    | a2::s5 ->
+                                                                    (* If this appears, you're using Ascii internals. Please don't *)
+ (fun f c ->
+  let n = Char.code c in
+  let h i = (n land (1 lsl i)) <> 0 in
+  f (h 0) (h 1) (h 2) (h 3) (h 4) (h 5) (h 6) (h 7))
+                                                                    (fun b23 b24 b25 b26 b27 b28 b29 b30 ->
+                                                                    if b23
+                                                                    then None
+                                                                    else 
+                                                                    if b24
+                                                                    then None
+                                                                    else 
+                                                                    if b25
+                                                                    then 
+                                                                    if b26
+                                                                    then None
+                                                                    else 
+                                                                    if b27
+                                                                    then 
+                                                                    if b28
+                                                                    then 
+                                                                    if b29
+                                                                    then 
+                                                                    if b30
+                                                                    then None
+                                                                    else 
+                                                                    (match s5 with
+                                                                    | [] ->
+                                                                    (match l1 with
+                                                                    | [] ->
+                                                                    None
+                                                                    | s6 :: l ->
+                                                                    (match s6 with
+                                                                    | SAtom _ ->
+                                                                    None
+                                                                    | SList es ->
+                                                                    (match l with
+                                                                    | [] ->
+                                                                    option_map
+                                                                    (fun x ->
+                                                                    EList x)
+                                                                    (dl es)
+                                                                    | _ :: _ ->
+                                                                    None)))
+                                                                    | _::_ ->
+                                                                    None)
+                                                                    else None
+                                                                    else None
+                                                                    else None
+                                                                    else None)
+                                                                    a2)
+                                                                    else None
+                                                                    else None
+                                                                    else None
+                                                                    else None
+                                                                    else 
+                                                                    if b16
+                                                                    then None
+                                                                    else 
+                                                                    if b17
+                                                                    then 
+                                                                    if b18
+                                                                    then None
+                                                                    else 
+                                                                    if b19
+                                                                    then 
+                                                                    if b20
+                                                                    then 
+                                                                    if b21
+                                                                    then 
+                                                                    if b22
+                                                                    then None
+                                                                    else 
+                                                                    (match s4 with
+                                                                    | [] ->
+                                                                    None
+                                                                    | a2::s5 ->
+                                                                    (* If this appears, you're using Ascii internals. Please don't *)
+ (fun f c ->
+  let n = Char.code c in
+  let h i = (n land (1 lsl i)) <> 0 in
+  f (h 0) (h 1) (h 2) (h 3) (h 4) (h 5) (h 6) (h 7))
+                                                                    (fun b23 b24 b25 b26 b27 b28 b29 b30 ->
+                                                                    if b23
+                                                                    then 
+                                                                    if b24
+                                                                    then None
+                                                                    else 
+                                                                    if b25
+                                                                    then 
+                                                                    if b26
+                                                                    then None
+                                                                    else 
+                                                                    if b27
+                                                                    then None
+                                                                    else 
+                                                                    if b28
+                                                                    then 
+                                                                    if b29
+                                                                    then 
+                                                                    if b30
+                                                                    then None
+                                                                    else 
+                                                                    (match s5 with
+                                                                    | [] ->
+                                                                    None
+                                                                    | a3::s6 ->
+                                                                    (* If this appears, you're using Ascii internals. Please don't *)
+ (fun f c ->
+  let n = Char.code c in
+  let h i = (n land (1 lsl i)) <> 0 in
+  f (h 0) (h 1) (h 2) (h 3) (h 4) (h 5) (h 6) (h 7))
+                                                                    (fun b31 b32 b33 b34 b35 b36 b37 b38 ->
+                                                                    if b31
+                                                                    then None
+                                                                    else 
+                                                                    if b32
+                                                                    then 
+                                                                    if b33
+                                                                    then None
+                                                                    else 
+                                                                    if b34
+                                                                    then None
+                                                                    else 
+                                                                    if b35
+                                                                    then 
+                                                                    if b36
+                                                                    then 
+                                                                    if b37
+                                                                    then 
+                                                                    if b38
+                                                                    then None
+                                                                    else 
+                                                                    (match s6 with
+                                                                    | [] ->
+                                                                    None
+                                                                    | a4::s7 ->
+                                                                    (* If this appears, you're using Ascii internals. Please don't *)
+ (fun f c ->
+  let n = Char.code c in
+  let h i = (n land (1 lsl i)) <> 0 in
+  f (h 0) (h 1) (h 2) (h 3) (h 4) (h 5) (h 6) (h 7))
+                                                                    (fun b39 b40 b41 b42 b43 b44 b45 b46 ->
+                                                                    if b39
+                                                                    then 
+                                                                    if b40
+                                                                    then None
+                                                                    else 
+                                                                    if b41
+                                                                    then None
+                                                                    else 
+                                                                    if b42
+                                                                    then None
+                                                                    else 
+                                                                    if b43
+                                                                    then None
+                                                                    else 
+                                                                    if b44
+                                                                    then 
+                                                                    if b45
+                                                                    then 
+                                                                    if b46
+                                                                    then None
+                                                                    else 
+                                                                    (match s7 with
+                                                                    | [] ->
+                                                                    None
+                                                                    | a5::s8 ->
+                                                                    (* If this appears, you're using Ascii internals. Please don't *)
+ (fun f c ->
+  let n = Char.code c in
+  let h i = (n land (1 lsl i)) <> 0 in
+  f (h 0) (h 1) (h 2) (h 3) (h 4) (h 5) (h 6) (h 7))
+                                                                    (fun b47 b48 b49 b50 b51 b52 b53 b54 ->
+                                                                    if b47
+                                                                    then None
+                                                                    else 
+                                                                    if b48
+                                                                    then None
+                                                                    else 
+                                                                    if b49
+                                                                    then 
+                                                                    if b50
+                                                                    then 
+                                                                    if b51
+                                                                    then None
+                                                                    else 
+                                                                    if b52
+                                                                    then 
+                                                                    if b53
+                                                                    then 
+                                                                    if b54
+                                                                    then None
+                                                                    else 
+                                                                    (match s8 with
+                                                                    | [] ->
+                                                                    (match l1 with
+                                                                    | [] ->
+                                                                    None
+                                                                    | st :: l ->
+                                                                    (match l with
+                                                                    | [] ->
+                                                                    None
+                                                                    | n0 :: l2 ->
+                                                                    (match l2 with
+                                                                    | [] ->
+                                                                    (match 
+                                                                    d_bool st with
+                                                                    | Some s' ->
+                                                                    (match 
+                                                                    d_nat n0 with
+                                                                    | Some n' ->
+                                                                    Some
+                                                                    (ELiteral
+                                                                    (s', n'))
+                                                                    | None ->
+                                                                    None)
+                                                                    | None ->
+                                                                    None)
+                                                                    | _ :: _ ->
+                                                                    None)))
+                                                                    | _::_ ->
+                                                                    None)
+                                                                    else None
+                                                                    else None
+                                                                    else None
+                                                                    else None)
+                                                                    a5)
+                                                                    else None
+                                                                    else None
+                                                                    else None)
+                                                                    a4)
+                                                                    else None
+                                                                    else None
+                                                                    else None
+                                                                    else None)
+                                                                    a3)
+                                                                    else None
+                                                                    else None
+                                                                    else None
+                                                                    else None)
+                                                                    a2)
+                                                                    else None
+                                                                    else None
+                                                                    else None
+                                                                    else None)
+                                                                    a1)
+                                                                    else None
+                                                                    else None
+                                                                    else 
+                                                                    if b12
+                                                                    then None
+                                                                    else 
+                                                                    if b13
+                                                                    then 
+                                                                    if b14
+                                                                    then 
+                                                                    if b15
+                                                                    then None
+                                                                    else 
+                                                                    (match s3 with
+                                                                    | [] ->
+                                                                    None
+                                                                    | a1::s4 ->
+                                                                    (* If this appears, you're using Ascii internals. Please don't *)
+ (fun f c ->
+  let n = Char.code c in
+  let h i = (n land (1 lsl i)) <> 0 in
+  f (h 0) (h 1) (h 2) (h 3) (h 4) (h 5) (h 6) (h 7))
+                                                                    (fun b16 b17 b18 b19 b20 b21 b22 b23 ->
+                                                                    if b16
+                                                                    then 
+                                                                    if b17
+                                                                    then None
+                                                                    else 
+                                                                    if b18
+                                                                    then 
+                                                                    if b19
+                                                                    then 
+                                                                    if b20
+                                                                    then None
+                                                                    else 
+                                                                    if b21
+                                                                    then 
+                                                                    if b22
+                                                                    then 
+                                                                    if b23
+                                                                    then None
+                                                                    else 
+                                                                    (match s4 with
+                                                                    | [] ->
+                                                                    None
+                                                                    | a2::s5 ->
+                                                                    (* If this appears, you're using Ascii internals. Please don't *)
+ (fun f c ->
+  let n = Char.code c in
+  let h i = (n land (1 lsl i)) <> 0 in
+  f (h 0) (h 1) (h 2) (h 3) (h 4) (h 5) (h 6) (h 7))
+                                                                    (fun b24 b25 b26 b27 b28 b29 b30 b31 ->
+                                                                    if b24
+                                                                    then None
+                                                                    else 
+                                                                    if b25
+                                                                    then 
+                                                                    if b26
+                                                                    then None
+                                                                    else 
+                                                                    if b27
+                                                                    then None
+                                                                    else 
+                                                                    if b28
+                                                                    then None
+                                                                    else 
+                                                                    if b29
+                                                                    then 
+                                                                    if b30
+                                                                    then 
+                                                                    if b31
+                                                                    then None
+                                                                    else 
+                                                                    (match s5 with
+                                                                    | [] ->
+                                                                    None
+                                                                    | a3::s6 ->
+                                                                    (* If this appears, you're using Ascii internals. Please don't *)
+ (fun f c ->
+  let n = Char.code c in
+  let h i = (n land (1 lsl i)) <> 0 in
+  f (h 0) (h 1) (h 2) (h 3) (h 4) (h 5) (h 6) (h 7))
+                                                                    (fun b32 b33 b34 b35 b36 b37 b38 b39 ->
+                                                                    if b32
+                                                                    then None
+                                                                    else 
+                                                                    if b33
+                                                                    then None
+                                                                    else 
+                                                                    if b34
+                                                                    then 
+                                                                    if b35
+                                                                    then None
+                                                                    else 
+                                                                    if b36
+                                                                    then None
+                                                                    else 
+                                                                    if b37
+                                                                    then 
+                                                                    if b38
+                                                                    then 
+                                                                    if b39
+                                                                    then None
+                                                                    else 
+                                                                    (match s6 with
+                                                                    | [] ->
+                                                                    None
+                                                                    | a4::s7 ->
+                                                                    (* If this appears, you're using Ascii internals. Please don't *)
+ (fun f c ->
+  let n = Char.code c in
+  let h i = (n land (1 lsl i)) <> 0 in
+  f (h 0) (h 1) (h 2) (h 3) (h 4) (h 5) (h 6) (h 7))
+                                                                    (fun b40 b41 b42 b43 b44 b45 b46 b47 ->
+                                                                    if b40
+                                                                    then 
+                                                                    if b41
+                                                                    then None
+                                                                    else 
+                                                                    if b42
+                                                                    then None
+                                                                    else 
+                                                                    if b43
+                                                                    then None
+                                                                    else 
+                                                                    if b44
+                                                                    then None
+                                                                    else 
+                                                                    if b45
+                                                                    then 
+                                                                    if b46
+                                                                    then 
+                                                                    if b47
+                                                                    then None
+                                                                    else 
+                                                                    (match s7 with
+                                                                    | [] ->
+                                                                    (match l1 with
+                                                                    | [] ->
+                                                                    None
+                                                                    | ps :: l ->
+                                                                    (match l with
+                                                                    | [] ->
+                                                                    None
+                                                                    | b :: l2 ->
+                                                                    (match l2 with
+                                                                    | [] ->
+                                                                    (match 
+                                                                    d_strs ps with
+                                                                    | Some ps' ->
+                                                                    (match 
+                                                                    d_expr_fuel
+                                                                    f b with
+                                                                    | Some b' ->
+                                                                    Some
+                                                                    (ELambda
+                                                                    (ps', b'))
+                                                                    | None ->
+                                                                    None)
+                                                                    | None ->
+                                                                    None)
+                                                                    | _ :: _ ->
+                                                                    None)))
+                                                                    | _::_ ->
+                                                                    None)
+                                                                    else None
+                                                                    else None
+                                                                    else None)
+                                                                    a4)
+                                                                    else None
+                                                                    else None
+                                                                    else None)
+                                                                    a3)
+                                                                    else None
+                                                                    else None
+                                                                    else None)
+                                                                    a2)
+                                                                    else None
+                                                                    else None
+                                                                    else None
+                                                                    else None
+                                                                    else None)
+                                                                    a1)
+                                                                    else None
+                                                                    else None
+                                                               else None)
+                                                               a)
+                                                else None
+                                           else None
+                                 else if b4
+                                      then if b5
+                                           then if b6
+                                                then if b7
+                                                     then None
+                                                     else (match s2 with
+                                                           | [] -> None
+                                                           | a::s3 ->
+                                                             (* If this appears, you're using Ascii internals. Please don't *)
+ (fun f c ->
+  let n = Char.code c in
+  let h i = (n land (1 lsl i)) <> 0 in
+  f (h 0) (h 1) (h 2) (h 3) (h 4) (h 5) (h 6) (h 7))
+                                                               (fun b b8 b9 b10 b11 b12 b13 b14 ->
+                                                               if b
+                                                               then if b8
+                                                                    then None
+                                                                    else 
+                                                                    if b9
+                                                                    then 
+                                                                    if b10
+                                                                    then None
+                                                                    else 
+                                                                    if b11
+                                                                    then 
+                                                                    if b12
+                                                                    then 
+                                                                    if b13
+                                                                    then 
+                                                                    if b14
+                                                                    then None
+                                                                    else 
+                                                                    (match s3 with
+                                                                    | [] ->
+                                                                    None
+                                                                    | a1::s4 ->
+                                                                    (* If this appears, you're using Ascii internals. Please don't *)
+ (fun f c ->
+  let n = Char.code c in
+  let h i = (n land (1 lsl i)) <> 0 in
+  f (h 0) (h 1) (h 2) (h 3) (h 4) (h 5) (h 6) (h 7))
+                                                                    (fun b15 b16 b17 b18 b19 b20 b21 b22 ->
+                                                                    if b15
+                                                                    then None
+                                                                    else 
+                                                                    if b16
+                                                                    then None
+                                                                    else 
+                                                                    if b17
+                                                                    then None
+                                                                    else 
+                                                                    if b18
+                                                                    then None
+                                                                    else 
+                                                                    if b19
+                                                                    then 
+                                                                    if b20
+                                                                    then 
+                                                                    if b21
+                                                                    then 
+                                                                    if b22
+                                                                    then None
+                                                                    else 
+                                                                    (match s4 with
+                                                                    | [] ->
+                                                                    None
+                                                                    | a2::s5 ->
+                                                                    (* If this appears, you're using Ascii internals. Please don't *)
+ (fun f c ->
+  let n = Char.code c in
+  let h i = (n land (1 lsl i)) <> 0 in
+  f (h 0) (h 1) (h 2) (h 3) (h 4) (h 5) (h 6) (h 7))
+                                                                    (fun b23 b24 b25 b26 b27 b28 b29 b30 ->
+                                                                    if b23
+                                                                    then None
+                                                                    else 
+                                                                    if b24
+                                                                    then None
+                                                                    else 
+                                                                    if b25
+                                                                    then 
+                                                                    if b26
+                                                                    then 
+                                                                    if b27
+                                                                    then None
+                                                                    else 
+                                                                    if b28
+                                                                    then 
+                                                                    if b29
+                                                                    then 
+                                                                    if b30
+                                                                    then None
+                                                                    else 
+                                                                    (match s5 with
+                                                                    | [] ->
+                                                                    None
+                                                                    | a3::s6 ->
+                                                                    (* If this appears, you're using Ascii internals. Please don't *)
+ (fun f c ->
+  let n = Char.code c in
+  let h i = (n land (1 lsl i)) <> 0 in
+  f (h 0) (h 1) (h 2) (h 3) (h 4) (h 5) (h 6) (h 7))
+                                                                    (fun b31 b32 b33 b34 b35 b36 b37 b38 ->
+                                                                    if b31
+                                                                    then 
+                                                                    if b32
+                                                                    then None
+                                                                    else 
+                                                                    if b33
+                                                                    then 
+                                                                    if b34
+                                                                    then None
+                                                                    else 
+                                                                    if b35
+                                                                    then None
+                                                                    else 
+                                                                    if b36
+                                                                    then 
+                                                                    if b37
+                                                                    then 
+                                                                    if b38
+                                                                    then None
+                                                                    else 
+                                                                    (match s6 with
+                                                                    | [] ->
+                                                                    (match l1 with
+                                                                    | [] ->
+                                                                    None
+                                                                    | s7 :: l ->
+                                                                    (match s7 with
+                                                                    | SAtom _ ->
+                                                                    None
+                                                                    | SList es ->
+                                                                    (match l with
+                                                                    | [] ->
+                                                                    option_map
+                                                                    (fun x ->
+                                                                    ETuple x)
+                                                                    (dl es)
+                                                                    | _ :: _ ->
+                                                                    None)))
+                                                                    | _::_ ->
+                                                                    None)
+                                                                    else None
+                                                                    else None
+                                                                    else None
+                                                                    else None)
+                                                                    a3)
+                                                                    else None
+                                                                    else None
+                                                                    else None
+                                                                    else None)
+                                                                    a2)
+                                                                    else None
+                                                                    else None
+                                                                    else None)
+                                                                    a1)
+                                                                    else None
+                                                                    else None
+                                                                    else None
+                                                                    else None
+                                                               else None)
+                                                               a)
+                                                else None
+                                           else None
+                                      else if b5
+                                           then if b6
+                                                then if b7
+                                                     then None
+                                                     else (match s2 with
+                                                           | [] -> None
+                                                           | a::s3 ->
+                                                             (* If this appears, you're using Ascii internals. Please don't *)
+ (fun f c ->
+  let n = Char.code c in
+  let h i = (n land (1 lsl i)) <> 0 in
+  f (h 0) (h 1) (h 2) (h 3) (h 4) (h 5) (h 6) (h 7))
+                                                               (fun b b8 b9 b10 b11 b12 b13 b14 ->
+                                                               if b
+                                                               then if b8
+                                                                    then None
+                                                                    else 
+                                                                    if b9
+                                                                    then None
+                                                                    else 
+                                                                    if b10
+                                                                    then 
+                                                                    if b11
+                                                                    then None
+                                                                    else 
+                                                                    if b12
+                                                                    then 
+                                                                    if b13
+                                                                    then 
+                                                                    if b14
+                                                                    then None
+                                                                    else 
+                                                                    (match s3 with
+                                                                    | [] ->
+                                                                    None
+                                                                    | a1::s4 ->
+                                                                    (* If this appears, you're using Ascii internals. Please don't *)
+ (fun f c ->
+  let n = Char.code c in
+  let h i = (n land (1 lsl i)) <> 0 in
+  f (h 0) (h 1) (h 2) (h 3) (h 4) (h 5) (h 6) (h 7))
+                                                                    (fun b15 b16 b17 b18 b19 b20 b21 b22 ->
+                                                                    if b15
+                                                                    then 
+                                                                    if b16
+                                                                    then 
+                                                                    if b17
+                                                                    then None
+                                                                    else 
+                                                                    if b18
+                                                                    then None
+                                                                    else 
+                                                                    if b19
+                                                                    then None
+                                                                    else 
+                                                                    if b20
+                                                                    then 
+                                                                    if b21
+                                                                    then 
+                                                                    if b22
+                                                                    then None
+                                                                    else 
+                                                                    (match s4 with
+                                                                    | [] ->
+                                                                    None
+                                                                    | a2::s5 ->
+                                                                    (* If this appears, you're using Ascii internals. Please don't *)
+ (fun f c ->
+  let n = Char.code c in
+  let h i = (n land (1 lsl i)) <> 0 in
+  f (h 0) (h 1) (h 2) (h 3) (h 4) (h 5) (h 6) (h 7))
+                                                                    (fun b23 b24 b25 b26 b27 b28 b29 b30 ->
+                                                                    if b23
+                                                                    then None
+                                                                    else 
+                                                                    if b24
+                                                                    then None
+                                                                    else 
+                                                                    if b25
+                                                                    then 
+                                                                    if b26
+                                                                    then None
+                                                                    else 
+                                                                    if b27
+                                                                    then 
+                                                                    if b28
+                                                                    then 
+                                                                    if b29
+                                                                    then 
+                                                                    if b30
+                                                                    then None
+                                                                    else 
+                                                                    (match s5 with
+                                                                    | [] ->
+                                                                    (match l1 with
+                                                                    | [] ->
+                                                                    None
+                                                                    | hn :: l ->
+                                                                    (match l with
+                                                                    | [] ->
+                                                                    None
+                                                                    | lit :: l2 ->
+                                                                    (match l2 with
+                                                                    | [] ->
+                                                                    None
+                                                                    | s6 :: l3 ->
+                                                                    (match s6 with
+                                                                    | SAtom _ ->
+                                                                    None
+                                                                    | SList vs ->
+                                                                    (match l3 with
+                                                                    | [] ->
+                                                                    (match 
+                                                                    d_bool hn with
+                                                                    | Some h ->
+                                                                    (match 
+                                                                    d_bool lit with
+                                                                    | Some l' ->
+                                                                    (match 
+                                                                    dl vs with
+                                                                    | Some v' ->
+                                                                    Some
+                                                                    (EDict
+                                                                    (h, l',
+                                                                    v'))
+                                                                    | None ->
+                                                                    None)
+                                                                    | None ->
+                                                                    None)
+                                                                    | None ->
+                                                                    None)
+                                                                    | _ :: _ ->
+                                                                    None)))))
+                                                                    | _::_ ->
+                                                                    None)
+                                                                    else None
+                                                                    else None
+                                                                    else None
+                                                                    else None)
+                                                                    a2)
+                                                                    else None
+                                                                    else None
+                                                                    else None
+                                                                    else None)
+                                                                    a1)
+                                                                    else None
+                                                                    else None
+                                                                    else None
+                                                               else None)
+                                                               a)
+                                                else None
+                                           else None
+                            else None)
+                  a0)
+           | SList _ -> None)))
+
+(** val sdepth : sexp -> nat **)
+
+let rec sdepth = function
+| SAtom _ -> S O
+| SList l -> S (fold_right (fun x acc -> Nat.max (sdepth x) acc) O l)
+
+(** val d_expr : sexp -> expr option **)
+
+let d_expr s =
+  d_expr_fuel (S (sdepth s)) s
+
+(** val d_minfo : sexp -> ((char list * char list) * minfo) option **)
+
+let d_minfo = function
+| SAtom _ -> None
+| SList l ->
+  (match l with
+   | [] -> None
+   | s0 :: l0 ->
+     (match s0 with
+      | SAtom t ->
+        (match l0 with
+         | [] -> None
+         | s1 :: l1 ->
+           (match s1 with
+            | SAtom m ->
+              (match l1 with
+               | [] -> None
+               | ic :: l2 ->
+                 (match l2 with
+                  | [] -> None
+                  | s2 :: l3 ->
+                    (match s2 with
+                     | SAtom ty ->
+                       (match l3 with
+                        | [] -> None
+                        | pd :: l4 ->
+                          (match l4 with
+                           | [] -> None
+                           | s3 :: l5 ->
+                             (match s3 with
+                              | SAtom ety ->
+                                (match l5 with
+                                 | [] -> None
+                                 | epd :: l6 ->
+                                   (match l6 with
+                                    | [] ->
+                                      (match d_bool ic with
+                                       | Some ic' ->
+                                         (match d_nat pd with
+                                          | Some pd' ->
+                                            (match d_nat epd with
+                                             | Some epd' ->
+                                               Some ((t, m), { mi_coll = ic';
+                                                 mi_ty = ty; mi_pd = pd';
+                                                 mi_ety = ety; mi_epd =
+                                                 epd' })
+                                             | None -> None)
+                                          | None -> None)
+                                       | None -> None)
+                                    | _ :: _ -> None))
+                              | SList _ -> None)))
+                     | SList _ -> None)))
+            | SList _ -> None))
+      | SList _ -> None))
+
+(** val d_registry : sexp -> registry option **)
+
+let d_registry = function
+| SAtom _ -> None
+| SList l ->
+  (match l with
+   | [] -> None
+   | s0 :: l0 ->
+     (match s0 with
+      | SAtom _ -> None
+      | SList ms ->
+        (match l0 with
+         | [] -> None
+         | s1 :: l1 ->
+           (match s1 with
+            | SAtom _ -> None
+            | SList nss ->
+              (match l1 with
+               | [] -> None
+               | s2 :: l2 ->
+                 (match s2 with
+                  | SAtom _ -> None
+                  | SList ens ->
+                    (match l2 with
+                     | [] ->
+                       let den = fun x ->
+                         match x with
+                         | SAtom _ -> None
+                         | SList l3 ->
+                           (match l3 with
+                            | [] -> None
+                            | p :: l4 ->
+                              (match l4 with
+                               | [] -> None
+                               | vs :: l5 ->
+                                 (match l5 with
+                                  | [] ->
+                                    (match d_strs p with
+                                     | Some p' ->
+                                       (match d_strs vs with
+                                        | Some v' -> Some (p', v')
+                                        | None -> None)
+                                     | None -> None)
+                                  | _ :: _ -> None)))
+                       in
+                       (match d_list d_minfo ms with
+                        | Some ms' ->
+                          (match d_list d_strs nss with
+                           | Some ns' ->
+                             (match d_list den ens with
+                              | Some en' ->
+                                Some { r_methods = ms'; r_ns = ns'; r_enums =
+                                  en' }
+                              | None -> None)
+                           | None -> None)
+                        | None -> None)
+                     | _ :: _ -> None)))))))
+
+(** val s_kind : kind -> sexp **)
+
+let rec s_kind = function
+| KVal (ty, pd) ->
+  (match ty with
+   | Some t -> s_tag ('v'::('a'::('l'::[]))) ((SAtom t) :: ((s_nat pd) :: []))
+   | None ->
+     s_tag
+       ('v'::('a'::('l'::('-'::('u'::('n'::('t'::('y'::('p'::('e'::('d'::[])))))))))))
+       [])
+| KEnumVal -> s_tag ('e'::('n'::('u'::('m'::('v'::('a'::('l'::[]))))))) []
+| KColl (c, cpd, e, epd) ->
+  s_tag ('c'::('o'::('l'::('l'::[])))) ((SAtom c) :: ((s_nat cpd) :: ((SAtom
+    e) :: ((s_nat epd) :: []))))
+| KSeq v -> s_tag ('s'::('e'::('q'::[]))) ((s_kind v) :: [])
+| KTuple ks -> s_tag ('t'::('u'::('p'::('l'::('e'::[]))))) (map s_kind ks)
+| KDict (ks, _) -> s_tag ('d'::('i'::('c'::('t'::[])))) (map s_kind ks)
+| KTree -> s_tag ('t'::('r'::('e'::('e'::[])))) []
+| KNs p -> s_tag ('n'::('s'::[])) ((s_strs p) :: [])
+| KEnum p -> s_tag ('e'::('n'::('u'::('m'::[])))) ((s_strs p) :: [])
+
+(** val run_translate : sexp -> sexp **)
+
+let run_translate = function
+| SAtom _ -> bad_input
+| SList l ->
+  (match l with
+   | [] -> bad_input
+   | g :: l0 ->
+     (match l0 with
+      | [] -> bad_input
+      | a :: l1 ->
+        (match l1 with
+         | [] ->
+           (match d_registry g with
+            | Some g0 ->
+              (match d_expr a with
+               | Some e ->
+                 s_result s_kind
+                   (translate g0
+                     (add (S (S (S (S (S (S (S (S (S (S (S (S (S (S (S (S (S
+                       (S (S (S (S (S (S (S (S (S (S (S (S (S (S (S (S (S (S
+                       (S (S (S (S (S (S (S (S (S (S (S (S (S (S (S (S (S (S
+                       (S (S (S (S (S (S (S (S (S (S (S (S (S (S (S (S (S (S
+                       (S (S (S (S (S (S (S (S (S (S (S (S (S (S (S (S (S (S
+                       (S (S (S (S (S (S (S (S (S (S (S (S (S (S (S (S (S (S
+                       (S (S (S (S (S (S (S (S (S (S (S (S (S (S (S (S (S (S
+                       (S (S (S (S (S (S (S (S (S (S (S (S (S (S (S (S (S (S
+                       (S (S (S (S (S (S (S (S (S (S (S (S (S (S (S (S (S (S
+                       (S (S (S (S (S (S (S (S (S (S (S (S (S (S (S (S (S (S
+                       (S (S (S (S (S (S (S (S (S (S (S (S (S (S (S (S (S (S
+                       (S (S (S
+                       O))))))))))))))))))))))))))))))))))))))))))))))))))))))))))))))))))))))))))))))))))))))))))))))))))))))))))))))))))))))))))))))))))))))))))))))))))))))))))))))))))))))))))))))))))))))))))))))))))))))))
+                       (mul (S (S (S (S (S (S (S (S (S (S (S (S (S (S (S (S
+                         (S (S (S (S (S (S (S (S (S (S (S (S (S (S (S (S (S
+                         (S (S (S (S (S (S (S (S (S (S (S (S (S (S (S (S (S
+                         O))))))))))))))))))))))))))))))))))))))))))))))))))
+                         (sdepth a))) e)
+               | None -> bad_input)
+            | None -> bad_input)
+         | _ :: _ -> bad_input)))
+
 (** val dispatch : char list -> sexp -> sexp **)
 
 let dispatch cmd arg =
@@ -7877,6 +12386,9 @@ let dispatch cmd arg =
             else if eqb0 cmd
                       ('c'::('p'::('p'::('.'::('r'::('u'::('n'::[])))))))
                  then run_run arg
-                 else s_tag
-                        ('u'::('n'::('k'::('n'::('o'::('w'::('n'::('-'::('c'::('o'::('m'::('m'::('a'::('n'::('d'::[])))))))))))))))
-                        ((SAtom cmd) :: [])
+                 else if eqb0 cmd
+                           ('c'::('0'::('9'::('.'::('t'::('r'::('a'::('n'::('s'::('l'::('a'::('t'::('e'::[])))))))))))))
+                      then run_translate arg
+                      else s_tag
+                             ('u'::('n'::('k'::('n'::('o'::('w'::('n'::('-'::('c'::('o'::('m'::('m'::('a'::('n'::('d'::[])))))))))))))))
+                             ((SAtom cmd) :: [])
